@@ -9,206 +9,40 @@ namespace SimVerif
 namespace Hs
 
 /-- the full invariant between labels -/
-structure HFull (a : String) (aep : Ep) (s : HS) : Prop where
-  inv  : HInv a aep s
-  work : HInv.work a s
+structure HFull (s : HS) : Prop where
+  inv  : HInv s
+  work : HInv.work s
 
-theorem HInv.tick {a : String} {aep : Ep} {s : HS} (h : HInv a aep s) (t : Int) :
-    HInv a aep { s with now := t } :=
-  { a_ex := h.a_ex, a_open := h.a_open, a_closed := h.a_closed, reg_a := h.reg_a, o_acc := h.o_acc, fwd0 := h.fwd0,
-    dial_len := h.dial_len, chan_ok := h.chan_ok, hops1_q := h.hops1_q, hops1_a := h.hops1_a, idle := h.idle,
-    idle_b := h.idle_b, conn := h.conn, s_fwd := h.s_fwd, f_own := h.f_own, d_live := h.d_live,
+theorem HInv.tick {s : HS} (h : HInv s) (t : Int) : HInv { s with now := t } :=
+  { a_chan := h.a_chan, a_closed := h.a_closed, a_lis := h.a_lis, reg_own := h.reg_own, bound_reg := h.bound_reg,
+    dial_len := h.dial_len, chan_ok := h.chan_ok, hops1_q := h.hops1_q, hops1_a := h.hops1_a, d_acc := h.d_acc,
+    idle := h.idle, conn := h.conn, s_fwd := h.s_fwd, f_own := h.f_own, d_live := h.d_live, o_fwd := h.o_fwd,
     b_syn := h.b_syn, b_syn1 := h.b_syn1, b_ack := h.b_ack,
-    syn_lt := h.syn_lt, syn_nd := h.syn_nd, fifo := h.fifo, a_log := h.a_log, pend := h.pend, ser_lt := h.ser_lt,
-    ser_mono := h.ser_mono, peer_b := h.peer_b, con_ok := h.con_ok, o_fwd := h.o_fwd, nat_lt := h.nat_lt }
+    syn_lt := h.syn_lt, syn_nd := h.syn_nd, syn_ep := h.syn_ep, fifo := h.fifo, fifo_all := h.fifo_all,
+    a_log := h.a_log, pend := h.pend, ser_lt := h.ser_lt, ser_mono := h.ser_mono, peer_b := h.peer_b,
+    con_ok := h.con_ok, con_nd := h.con_nd, con_pend := h.con_pend, nat_lt := h.nat_lt,
+    np_pos := h.np_pos, reg_nodef := h.reg_nodef, acc_nd := h.acc_nd }
 
-theorem HFull.tick {a : String} {aep : Ep} {s : HS} (h : HFull a aep s) (t : Int) :
-    HFull a aep { s with now := t } := ⟨h.inv.tick t, h.work⟩
+theorem HFull.tick {s : HS} (h : HFull s) (t : Int) : HFull { s with now := t } := ⟨h.inv.tick t, h.work⟩
 
-/-! ### listen -/
+/-! ### helpers -/
 
-theorem HFull.listen {a : String} {aep : Ep} {s : HS} (h : HFull a aep s) (qs : Int) :
-    HFull a aep { s with net := (s.net.accListen a qs).1 } := by
-  obtain ⟨va, ac, hva, hac, _⟩ := h.inv.a_ex
-  rcases accListen_sum s.net a qs va ac hva hac with he | ⟨hopen, s0, hs0, he⟩
-  · rw [he]; exact h
-  · rw [he]
-    have hv0 : s0.hview = va := by
-      have := hva; simp only [NetSt.sv, hs0, Option.map_some, Option.some.injEq] at this; exact this
-    have hsv : ∀ o, (s.net.setTcp a { s0 with acc := some { ac with queueLimit := if qs = -1 then 20 else qs } }).sv o
-        = if o = a then some { va with acc := some { ac with queueLimit := if qs = -1 then 20 else qs } } else s.net.sv o := by
-      intro o; rw [sv_setTcp]; split
-      · rw [← hv0]; rfl
-      · rfl
-    have := h.inv.updA va ac { ac with queueLimit := if qs = -1 then 20 else qs } hva hac
-      (s.net.setTcp a { s0 with acc := some { ac with queueLimit := if qs = -1 then 20 else qs } }) s.bag s.synLog s.accCalls
-      rfl rfl rfl (fun _ => rfl) hsv rfl (fun _ => rfl) (fun hc => by rw [hopen] at hc; cases hc)
-      (h.inv.fifo va ac hva hac) (fun op hop => h.inv.pend va ac op hva hac hop) (Nat.le_refl _)
-      h.inv.syn_lt h.inv.syn_nd (fun _ hp => Or.inl hp) h.inv.b_syn1
-      (fun pk hpk hty c hc => by
-        obtain ⟨c', _, q1, _, q3, _⟩ := h.inv.b_syn pk hpk hty
-        rw [hc] at q1; cases q1; exact q3)
-    refine ⟨this, ?_⟩
-    intro va1 ac1 hva1 hac1 hop1 hpe
-    rw [hsv, if_pos rfl] at hva1; cases hva1
-    simp only [Option.some.injEq] at hac1; subst hac1
-    exact h.work va ac hva hac hopen hpe
+theorem isAcc_view {n : NetSt} {a : String} (h : n.isAcc a) : ∃ va ac, n.sv a = some va ∧ va.acc = some ac := by
+  obtain ⟨sk, hs, hacc⟩ := h
+  obtain ⟨ac, hac⟩ := Option.isSome_iff_exists.mp hacc
+  exact ⟨sk.hview, ac, by simp [NetSt.sv, hs], hac⟩
 
-/-! ### closeAcceptor -/
+theorem isSock_view {n : NetSt} {o : String} (h : n.isSock o) : ∃ v, n.sv o = some v ∧ v.acc = none := by
+  obtain ⟨sk, hs, hacc⟩ := h
+  exact ⟨sk.hview, by simp [NetSt.sv, hs], hacc⟩
 
-theorem HFull.closeAcceptor {a : String} {aep : Ep} {s : HS} (h : HFull a aep s) :
-    HFull a aep { s with net := (s.net.accClose s.now a).1, bag := s.bag ++ fwdPkts (s.net.accClose s.now a).2 } := by
-  obtain ⟨va, ac, hva, hac, _⟩ := h.inv.a_ex
-  obtain ⟨c1, c2, c3, c4, c5, c6, c7, _, c9⟩ := accClose_sum s.net s.now a va ac hva hac
-  generalize s.net.accClose s.now a = r at *
-  obtain ⟨n', e⟩ := r
-  simp only at c1 c2 c3 c4 c5 c6 c7 c9 ⊢
-  refine ⟨h.inv.closeAcc va ac hva hac n' (fwdPkts e) c1 c2 c3 c4 c5 c6 c7 c9, ?_⟩
-  intro va1 ac1 hva1 _ hop1 _
-  rw [c5 a, if_pos rfl] at hva1; cases hva1; cases hop1
+theorem epochOf_sv (n : NetSt) (a : String) : n.epochOf a = ((n.sv a).bind (·.fwd)).getD 0 := by
+  unfold NetSt.epochOf NetSt.sv
+  cases n.tcp? a <;> rfl
 
-/-! ### natRewrite -/
-
-theorem natApply_fst (ext : String) (pk : Pkt) (chans : List Chan) :
-    (natApply ext pk chans).1 = { pk with src := natRewrite pk.src ext } := rfl
-
-theorem natApply_snd_nonsyn (ext : String) (pk : Pkt) (chans : List Chan) (h : pk.ty ≠ .syn) :
-    (natApply ext pk chans).2 = chans := by
-  unfold natApply natApplyP
-  cases hc : pk.chan.bind (fun c => chans[c]?) with
-  | none => rfl
-  | some ch =>
-    have : (pk.ty == PType.syn) = false := by simp [h]
-    simp [this]
-
-theorem natApply_snd_syn (ext : String) (pk : Pkt) (chans : List Chan) (c : Nat) (ch : Chan)
-    (h : pk.ty = .syn) (hc : pk.chan = some c) (hch : chans[c]? = some ch) :
-    (natApply ext pk chans).2 = chans.mapIdx (fun i x => if i = c then { ch with vis0 := { ch.vis0 with addr := ext } } else x) := by
-  unfold natApply natApplyP
-  simp [hc, hch, h]
-
-theorem HFull.natRw {a : String} {aep : Ep} {s : HS} (h : HFull a aep s) (i : Nat) (ext : String) (tp : TParams) :
-    HFull a aep (s.step a tp (.natRewrite i ext)) := by
-  simp only [HS.step]
-  split
-  · exact h
-  · rename_i pk hi
-    by_cases hty : pk.ty = .syn
-    · obtain ⟨c, cv0, q1, q2, q3, _⟩ := h.inv.b_syn pk (List.mem_of_getElem? hi) hty
-      obtain ⟨ch, hch, hchv⟩ := cv_some q2
-      have hch' : s.net.chans[c]? = some ch := hch
-      rw [natApply_snd_syn ext pk s.net.chans c ch hty q1 hch', natApply_fst]
-      simp only [hty, if_true, q1, Option.toList_some, List.map_cons, List.map_nil]
-      have e1 : ({ s.net with chans := s.net.chans.mapIdx (fun i x => if i = c then { ch with vis0 := { ch.vis0 with addr := ext } } else x) } : NetSt)
-          = s.net.setChan c { ch with vis0 := { ch.vis0 with addr := ext } } := rfl
-      rw [e1]
-      have hcv : ∀ d, (s.net.setChan c { ch with vis0 := { ch.vis0 with addr := ext } }).cv d
-          = if d = c then some { cv0 with vis0 := { cv0.vis0 with addr := ext } } else s.net.cv d := by
-        intro d; rw [cv_setChan]; split
-        · rename_i hd; subst hd; rw [q2, ← hchv]; rfl
-        · rfl
-      have h1 := h.inv.visRw c ext cv0 q2 q3 (s.net.setChan c { ch with vis0 := { ch.vis0 with addr := ext } })
-        rfl rfl (by simp) rfl (fun _ => rfl) (fun _ => rfl) hcv
-      refine ⟨HInv.bagSet h1 i pk _ hi ?_ ?_ ?_, ?_⟩
-      · exact hty.symm
-      · exact q1.symm
-      · rfl
-      · intro va ac hva hac hop hpe
-        exact h.work va ac hva hac hop hpe
-    · rw [natApply_snd_nonsyn ext pk s.net.chans hty, natApply_fst]
-      simp only [hty, if_false, List.append_nil]
-      have h2 := h.inv.bagSet i pk { pk with src := natRewrite pk.src ext } hi rfl rfl rfl
-      exact ⟨h2, h.work⟩
-
-/-! ### deliverSynAck -/
-
-theorem pairwise_eraseIdx {α : Type} {R : α → α → Prop} {l : List α} (h : l.Pairwise R) (i : Nat) :
-    (l.eraseIdx i).Pairwise R := h.sublist (List.eraseIdx_sublist l i)
-
-theorem HFull.deliverSynAck {a : String} {aep : Ep} {s : HS} (h : HFull a aep s) (i : Nat) (c : String) (tp : TParams)
-    (hok : s.ok a (.deliverSynAck i c)) : HFull a aep (s.step a tp (.deliverSynAck i c)) := by
-  obtain ⟨hca, pk, hi, hty, f, hlast, hft0⟩ := hok
-  obtain ⟨v, hv, hvf⟩ := h.inv.f_own f c hft0
-  obtain ⟨t1, t2⟩ := tcpIncoming_synack tp s.net s.now c pk v hv hty
-  simp only [HS.step, hi]
-  have hbag : ∀ q ∈ s.bag.eraseIdx i ++ [], q ∈ s.bag ∨ (q.ty ≠ .syn ∧ q.ty ≠ .synack) := by
-    intro q hq; rw [List.append_nil] at hq; exact Or.inl (List.mem_of_mem_eraseIdx hq)
-  have hbag1 : (s.bag.eraseIdx i ++ []).Pairwise (fun (p q : Pkt) => p.ty = PType.syn → q.ty = PType.syn → p.chan ≠ q.chan) := by
-    rw [List.append_nil]; exact pairwise_eraseIdx h.inv.b_syn1 i
-  have hwork : ∀ n' : NetSt, n'.sv a = s.net.sv a → ∀ (s' : HS), s'.net = n' → HInv.work a s' := by
-    intro n' hn' s' hs' va ac hva hac hop hpe
-    rw [hs', hn'] at hva; exact h.work va ac hva hac hop hpe
-  cases hch : v.connectH with
-  | none =>
-    rw [t1 hch]
-    simp only [fwdPkts_nil, okPosts_nil, List.map_nil, List.append_nil]
-    have := h.inv.upd1 c hca v s.net (s.bag.eraseIdx i ++ []) s.conLog rfl (Nat.le_refl _) rfl (fun _ => rfl)
-      (fun o' => by split <;> simp_all) (fun e he => Or.inl he) (fun hh => hh)
-      (fun g => by
-        simp only [hv, Option.bind_some]
-        split
-        · rename_i hg; exact (h.inv.s_fwd c v g hv hg).2
-        · rfl)
-      (h.inv.o_acc c v hca hv) (fun hc => h.inv.idle c v hca hv hc)
-      (fun va hva hop hc => h.inv.idle_b c v va hca hv hva hop hc)
-      (fun c0 hc0 => ⟨v, hv, hc0, rfl, rfl, Or.inl rfl⟩)
-      (Or.inl (by simp [hv])) (fun _ _ => by simp [hv]) (fun hop => h.inv.o_fwd c v hv hop)
-      hbag hbag1 (fun k hk => Or.inl hk)
-    simp only [List.append_nil] at this
-    exact ⟨this, hwork s.net rfl _ rfl⟩
-  | some hh =>
-    obtain ⟨s0, hs0, hv0, he⟩ := t2 hh hch
-    rw [he]
-    have hfw : fwdPkts [NEff.post { h := hh, ec := Ec.ok }, NEff.tcpWake c] = [] := rfl
-    have hok' : okPosts [NEff.post { h := hh, ec := Ec.ok }, NEff.tcpWake c] = [{ h := hh, ec := Ec.ok }] := rfl
-    simp only [hfw, hok', List.map_cons, List.map_nil, tcp?_setTcp_same, Option.bind_some]
-    have hsv : ∀ o', (s.net.setTcp c { s0 with connectH := none }).sv o'
-        = if o' = c then some { v with connectH := none } else s.net.sv o' := by
-      intro o'; rw [sv_setTcp]; split
-      · rw [← hv0]; rfl
-      · rfl
-    -- the SYN-ACK belongs to the channel this socket dialled, and that channel was accepted
-    obtain ⟨c0, cv, q1, q2, q3, e, he', q4⟩ := h.inv.b_ack pk (List.mem_of_getElem? hi) hty
-    have hlt : c0 < s.dialLog.length := by rw [h.inv.dial_len]; exact cv_lt q2
-    have hd : s.dialLog[c0]? = some s.dialLog[c0] := List.getElem?_eq_getElem hlt
-    obtain ⟨r1, _, _, _, _, _, _, f0, r8, _, _, r11⟩ := h.inv.chan_ok c0 cv _ q2 hd
-    have hff : f = f0 := by
-      rw [q3, r11, List.getLast?_append, List.getLast?_singleton] at hlast
-      simp at hlast; exact (fwdHop_inj hlast).symm
-    subst hff
-    have hvc : v.chan = some c0 := by
-      have := h.inv.d_live _ (List.getElem_mem hlt) c v f hv hvf r8
-      rw [this, r1]
-    have hsock : s.dialLog[c0].sock = c := by
-      obtain ⟨cv', d', p1, p2, p3⟩ := h.inv.conn c v c0 hca hv hvc
-      rw [hd] at p2; cases p2
-      rcases p3 with ⟨_, p4, _⟩ | ⟨_, p4, _⟩
-      · exact p4
-      · rw [hch] at p4; cases p4
-    have := h.inv.upd1 c hca { v with connectH := none } (s.net.setTcp c { s0 with connectH := none })
-      (s.bag.eraseIdx i ++ []) (s.conLog ++ [{ sock := c, h := hh, cid := s0.chan }])
-      rfl (Nat.le_refl _) rfl (fun _ => rfl) hsv (fun e he => Or.inl he) (fun hh => hh)
-      (fun g => by
-        simp only [hv, Option.bind_some, setTcp_fwdTarget]
-        split
-        · rename_i hg; exact (h.inv.s_fwd c v g hv hg).2
-        · rfl)
-      (h.inv.o_acc c v hca hv) (fun _ => rfl)
-      (fun va hva hop hc => h.inv.idle_b c v va hca hv hva hop hc)
-      (fun c1 hc1 => ⟨v, hv, hc1, rfl, rfl, Or.inr rfl⟩)
-      (Or.inl (by simp [hv])) (fun _ _ => by simp [hv]) (fun hop => h.inv.o_fwd c v hv hop)
-      hbag hbag1
-      (fun k hk => by
-        rcases List.mem_append.mp hk with hk | hk
-        · exact Or.inl hk
-        · rw [List.mem_singleton] at hk; subst hk
-          right
-          have : s0.chan = v.chan := congrArg SockV.chan hv0
-          exact ⟨c0, _, by rw [this]; exact hvc, hd, hsock, e, he', q4⟩)
-    refine ⟨this, hwork _ ?_ _ rfl⟩
-    rw [hsv, if_neg (Ne.symm hca)]
-
-/-! ### `check_accept_queue` (the second half of `deliverSyn` and of `accept`) -/
+theorem boundOf_sv (n : NetSt) (a : String) : n.boundOf a = ((n.sv a).map (·.bound)).getD {} := by
+  unfold NetSt.boundOf NetSt.sv
+  cases n.tcp? a <;> rfl
 
 theorem pendingAccept_of_sv {n : NetSt} {a : String} {va : SockV} {ac : AccState}
     (hva : n.sv a = some va) (hac : va.acc = some ac) : n.pendingAccept a = ac.acceptOp := by
@@ -231,13 +65,590 @@ theorem pairwise_append_errs {bag fw : List Pkt}
     · exact List.pairwise_of_forall (fun _ _ => trivial)
   · intro p _ q hq _ hqt; exact absurd hqt (hfw q hq)
 
-theorem HInv.check {a : String} {aep : Ep} {s : HS} (h : HInv a aep s) :
-    HFull a aep { s with net := (s.net.accCheckQueue s.now a).1,
-                         bag := s.bag ++ fwdPkts (s.net.accCheckQueue s.now a).2,
-                         accLog := s.accLog ++ accDones (s.accCalls - 1) (s.net.pendingAccept a)
-                                      (s.net.accCheckQueue s.now a).1 (s.net.accCheckQueue s.now a).2 } := by
-  obtain ⟨va, ac, hva, hac, hvch⟩ := h.a_ex
+theorem lookup_append_of_some {α β : Type} [BEq α] (l : List (α × β)) (k : α) (x : α × β) (v : β)
+    (h : l.lookup k = some v) : (l ++ [x]).lookup k = some v := by
+  induction l with
+  | nil => simp [List.lookup] at h
+  | cons y ys ih =>
+    obtain ⟨k₀, v₀⟩ := y
+    simp only [List.cons_append, List.lookup_cons] at h ⊢
+    cases hk : (k == k₀)
+    · simp only [hk] at h; exact ih h
+    · simp only [hk] at h; exact h
+
+theorem pairwise_eraseIdx {α : Type} {R : α → α → Prop} {l : List α} (h : l.Pairwise R) (i : Nat) :
+    (l.eraseIdx i).Pairwise R := h.sublist (List.eraseIdx_sublist l i)
+
+/-- the work-conservation clause survives when one socket changes and keeps it -/
+theorem work_upd {s : HS} (hw : HInv.work s) (o : String) (v' : SockV) (n' : NetSt)
+    (hsv : ∀ o', n'.sv o' = if o' = o then some v' else s.net.sv o')
+    (hv' : ∀ ac, v'.acc = some ac → v'.isOpen = true → ac.acceptOp.isSome → ac.conns = [])
+    (s' : HS) (hs' : s'.net = n') : HInv.work s' := by
+  intro a va ac hva hac hop hpe
+  rw [hs', hsv] at hva
+  split at hva
+  · cases hva; exact hv' ac hac hop hpe
+  · exact hw a va ac hva hac hop hpe
+
+theorem work_same {s : HS} (hw : HInv.work s) (n' : NetSt) (hsv : ∀ o', n'.sv o' = s.net.sv o')
+    (s' : HS) (hs' : s'.net = n') : HInv.work s' := by
+  intro a va ac hva hac hop hpe
+  rw [hs', hsv] at hva; exact hw a va ac hva hac hop hpe
+
+/-- a socket with a channel is not an acceptor -/
+theorem HInv.not_acc_of_chan {s : HS} (h : HInv s) (o : String) (v : SockV) (c : Nat)
+    (hv : s.net.sv o = some v) (hc : v.chan = some c) : v.acc = none := by
+  cases hacc : v.acc with
+  | none => rfl
+  | some ac => have := h.a_chan o v ac hv hacc; rw [hc] at this; cases this
+
+/-- an identity update of the network state (fields the handshake does not look at) -/
+theorem HInv.sameView {s : HS} (h : HInv s) (o : String) (v : SockV)
+    (hv : s.net.sv o = some v) (n' : NetSt) (bag' : List Pkt)
+    (hcfg : n'.cfg = s.net.cfg) (hfw : n'.fwds = s.net.fwds) (hch : n'.chans = s.net.chans)
+    (hreg : n'.reg.tcp = s.net.reg.tcp) (hnp : 0 < n'.reg.nextPort) (hsv : ∀ o', n'.sv o' = s.net.sv o')
+    (hbag : ∀ pk ∈ bag', pk ∈ s.bag ∨ (pk.ty ≠ .syn ∧ pk.ty ≠ .synack))
+    (hbag1 : bag'.Pairwise (fun (p q : Pkt) => p.ty = PType.syn → q.ty = PType.syn → p.chan ≠ q.chan)) :
+    HInv { s with net := n', bag := bag' } := by
+  have := h.upd1 o v n' bag' [] hcfg (by rw [hfw]; exact Nat.le_refl _) (by rw [hch])
+    (fun c => by simp [NetSt.cv, NetSt.chan?, hch])
+    (fun o' => by rw [hsv]; split <;> simp_all)
+    (fun e he => by rw [hreg] at he; exact Or.inl he)
+    (fun e he ho ac hac => by rw [hreg] at he; exact (h.reg_own e he v ac (by rw [ho]; exact hv) hac).symm)
+    (fun k o' _ hl => by rw [hreg]; exact hl)
+    hnp (fun e he => by rw [hreg] at he; exact h.reg_nodef e he)
+    (fun g => by
+      simp only [hv, Option.bind_some, NetSt.fwdTarget, hfw]
+      split
+      · rename_i hg; exact (h.s_fwd o v g hv hg).2
+      · rfl)
+    (by simp [hv]) (fun hc => h.idle o v hv hc)
+    (fun hc => by rw [hreg]; exact h.bound_reg o v hv hc)
+    (fun c0 hc0 => ⟨v, hv, hc0, rfl, rfl, Or.inl rfl⟩)
+    (Or.inl (by simp [hv])) (fun _ _ => by simp [hv]) (fun hop => h.o_fwd o v hv hop)
+    (fun ac hac => h.a_chan o v ac hv hac) (fun ac hac hcl => h.a_closed o v ac hv hac hcl)
+    (fun ac hac hq => h.a_lis o v ac hv hac hq)
+    (fun ac hac hf => by have := (h.s_fwd o v _ hv hf).1; omega)
+    (fun v0 hv0 _ => by rw [hv] at hv0; cases hv0; exact Or.inl rfl)
+    hbag hbag1 (Or.inl rfl)
+  simp only [List.append_nil] at this
+  exact this
+
+/-! ### listen, cancel on the acceptor, an error packet at the acceptor -/
+
+/-- the acceptor's slot or backlog changes, nothing else -/
+theorem HFull.accSlot {s : HS} (h : HFull s) (a : String) (va : SockV) (ac ac' : AccState) (s0 s1 : TcpSock)
+    (hva : s.net.sv a = some va) (hac : va.acc = some ac) (hs0 : s.net.tcp? a = some s0)
+    (hs1 : s1.hview = { va with acc := some ac' })
+    (hconns : ac'.conns = ac.conns)
+    (hop : ac'.acceptOp = ac.acceptOp ∨ ac'.acceptOp = none)
+    (hql : va.isOpen = false → ac'.queueLimit ≤ 0)
+    (hlis : 0 < ac'.queueLimit → va.bound.isDefault = false)
+    (bag' : List Pkt) (hbag : ∀ pk ∈ bag', pk ∈ s.bag)
+    (hbag1 : bag'.Pairwise (fun (p q : Pkt) => p.ty = PType.syn → q.ty = PType.syn → p.chan ≠ q.chan)) :
+    HFull { s with net := s.net.setTcp a s1, bag := bag' } := by
+  have hsv : ∀ o, (s.net.setTcp a s1).sv o = if o = a then some { va with acc := some ac' } else s.net.sv o := by
+    intro o; rw [sv_setTcp]; split
+    · rw [hs1]
+    · rfl
+  have := h.inv.updA a va ac ac' hva hac (s.net.setTcp a s1) bag' s.synLog s.accCalls
+    rfl rfl rfl (fun _ => rfl) hsv rfl h.inv.np_pos (fun _ => rfl) hql hlis
+    (fun f hf => by rw [hconns]; exact h.inv.fifo a va ac f hva hac hf) (fun _ _ => rfl)
+    (fun op hop' => by
+      rcases hop with ho | ho
+      · rw [ho] at hop'; exact h.inv.pend a va ac op hva hac hop'
+      · rw [ho] at hop'; cases hop')
+    (fun _ => Nat.le_refl _) (fun _ _ => rfl)
+    h.inv.syn_lt h.inv.syn_nd h.inv.syn_ep (fun _ hp => Or.inl (hbag _ hp)) hbag1
+    (fun pk hpk hty c hc => by
+      obtain ⟨c', _, q1, _, q3, _⟩ := h.inv.b_syn pk (hbag pk hpk) hty
+      rw [hc] at q1; cases q1; exact q3)
+  refine ⟨this, ?_⟩
+  apply work_upd h.work a { va with acc := some ac' } _ hsv _ _ rfl
+  intro ac1 hac1 hopn hpe
+  simp only [Option.some.injEq] at hac1; subst hac1
+  rw [hconns]
+  rcases hop with ho | ho
+  · rw [ho] at hpe; exact h.work a va ac hva hac hopn hpe
+  · rw [ho] at hpe; cases hpe
+
+theorem HFull.listen {s : HS} (h : HFull s) (a : String) (qs : Int) (hok : s.net.isAcc a) :
+    HFull { s with net := (s.net.accListen a qs).1 } := by
+  obtain ⟨va, ac, hva, hac⟩ := isAcc_view hok
+  rcases accListen_sum s.net a qs va ac hva hac with he | ⟨hopen, hbnd, s0, hs0, he⟩
+  · rw [he]; exact h
+  · rw [he]
+    have hv0 : s0.hview = va := by
+      have := hva; simp only [NetSt.sv, hs0, Option.map_some, Option.some.injEq] at this; exact this
+    exact h.accSlot a va ac { ac with queueLimit := if qs = -1 then 20 else qs } s0 _ hva hac hs0
+      (by rw [← hv0]; rfl) rfl (Or.inl rfl) (fun hc => by rw [hopen] at hc; cases hc) (fun _ => hbnd)
+      s.bag (fun _ hp => hp) h.inv.b_syn1
+
+theorem HFull.cancelAcc {s : HS} (h : HFull s) (a : String) (hok : s.net.isAcc a) :
+    HFull { s with net := (s.net.accCancel a).1, bag := s.bag ++ fwdPkts (s.net.accCancel a).2 } := by
+  obtain ⟨va, ac, hva, hac⟩ := isAcc_view hok
+  obtain ⟨s0, hs0, hv0⟩ := sv_some hva
+  have hs0acc : s0.acc = some ac := by rw [← hac, ← hv0]; rfl
+  rw [accCancel_eq s.net a s0 hs0]
+  obtain ⟨b1, _, b3⟩ := abortAccept_sum s0
+  simp only [b3, List.append_nil]
+  exact h.accSlot a va ac { ac with acceptOp := none } s0 _ hva hac hs0
+    (by rw [b1, hv0, hs0acc]; rfl) rfl (Or.inr rfl)
+    (fun hc => (h.inv.a_closed a va ac hva hac hc).1) (fun hq => h.inv.a_lis a va ac hva hac hq)
+    s.bag (fun _ hp => hp) h.inv.b_syn1
+
+theorem HFull.deliverErr {s : HS} (h : HFull s) (i : Nat) (a : String) (tp : TParams)
+    (hok : s.ok (.deliverErr i a)) : HFull (s.step tp (.deliverErr i a)) := by
+  obtain ⟨hacc, pk, hi, hty, _⟩ := hok
+  obtain ⟨va, ac, hva, hac⟩ := isAcc_view hacc
+  obtain ⟨s0, hs0, hv0⟩ := sv_some hva
+  have hs0acc : s0.acc = some ac := by rw [← hac, ← hv0]; rfl
+  simp only [HS.step, hi]
+  rw [accIncoming_err s.net s.now a pk s0 hs0 hty]
+  obtain ⟨b1, _, b3⟩ := abortAccept_sum s0
+  simp only [b3, List.append_nil]
+  exact h.accSlot a va ac { ac with acceptOp := none } s0 _ hva hac hs0
+    (by rw [b1, hv0, hs0acc]; rfl) rfl (Or.inr rfl)
+    (fun hc => (h.inv.a_closed a va ac hva hac hc).1) (fun hq => h.inv.a_lis a va ac hva hac hq)
+    (s.bag.eraseIdx i) (fun _ hp => List.mem_of_mem_eraseIdx hp) (pairwise_eraseIdx h.inv.b_syn1 i)
+
+/-! ### closeAcceptor -/
+
+theorem HFull.closeAcceptor {s : HS} (h : HFull s) (a : String) (hok : s.net.isAcc a) :
+    HFull { s with net := (s.net.accClose s.now a).1, bag := s.bag ++ fwdPkts (s.net.accClose s.now a).2 } := by
+  obtain ⟨va, ac, hva, hac⟩ := isAcc_view hok
+  obtain ⟨c1, c2, c3, c4, c5, c6, c7, _, c9⟩ := accClose_sum s.net s.now a va ac hva hac
+  have cnp := accClose_np s.net s.now a
+  generalize s.net.accClose s.now a = r at *
+  obtain ⟨n', e⟩ := r
+  simp only at c1 c2 c3 c4 c5 c6 c7 c9 cnp ⊢
+  refine ⟨h.inv.closeAcc a va ac hva hac n' (fwdPkts e) c1 c2 c3 c4 (by rw [cnp]; exact h.inv.np_pos) c5 c6 c7 c9, ?_⟩
+  apply work_upd h.work a _ n' c5 _ _ rfl
+  intro ac1 _ hop1 _; cases hop1
+
+/-! ### closing / opening a socket -/
+
+/-- `tcp::socket::close` on a socket that is not an acceptor; `extra` is the connect it aborts,
+    if that is to be logged -/
+theorem HInv.closeSock {s : HS} (h : HInv s) (o : String)
+    (v : SockV) (hv : s.net.sv o = some v) (hvacc : v.acc = none) (extra : List ConDone)
+    (hx : extra = [] ∨ ∃ c hh k, v.chan = some c ∧ v.connectH = some hh ∧ extra = [k]
+            ∧ k.cid = some c ∧ k.sock = o ∧ k.ec ≠ .ok) :
+    HInv { s with net := (s.net.tcpClose s.now o).1, bag := s.bag ++ fwdPkts (s.net.tcpClose s.now o).2,
+                  conLog := s.conLog ++ extra } := by
+  obtain ⟨c1, c2, c3, c4, c5, c6, c7, _, c9⟩ := tcpClose_sum s.net s.now o v hv
+  have cnp := tcpClose_np s.net s.now o
+  generalize s.net.tcpClose s.now o = r at *
+  obtain ⟨n', e⟩ := r
+  simp only at c1 c2 c3 c4 c5 c6 c7 c9 cnp ⊢
+  obtain ⟨hregm, hregl⟩ := reg_after_unbind c4
+  exact h.upd1 o ⟨false, {}, none, none, none, v.acc⟩ n' (s.bag ++ fwdPkts e) extra
+    c1 (by rw [c2]; exact Nat.le_refl _) c3 c6 c5
+    (fun e he => Or.inl (hregm e he))
+    (fun e he ho ac hac => by simp only at hac; rw [hvacc] at hac; cases hac)
+    hregl (by rw [cnp]; exact h.np_pos) (fun e he => h.reg_nodef e (hregm e he))
+    (fun g => by rw [c7 g]; simp [hv])
+    (by simp [hv]) (fun _ => rfl) (fun _ => Or.inl rfl)
+    (fun c hc => by cases hc) (Or.inr (Or.inl rfl)) (fun _ hh => by cases hh) (fun hh => by cases hh)
+    (fun _ _ => rfl)
+    (fun ac hac => by simp only at hac; rw [hvacc] at hac; cases hac)
+    (fun ac hac => by simp only at hac; rw [hvacc] at hac; cases hac)
+    (fun ac hac => by simp only at hac; rw [hvacc] at hac; cases hac)
+    (fun v0 hv0 hf => by
+      right; intro d _ hh; cases hh)
+    (fun pk hpk => by
+      rcases List.mem_append.mp hpk with hp | hp
+      · exact Or.inl hp
+      · exact Or.inr (errs_not_syn c9 pk hp))
+    (pairwise_append_errs h.b_syn1 (fun q hq => (errs_not_syn c9 q hq).1))
+    (by
+      rcases hx with hx | ⟨c, hh, k, x1, x2, x3, x4, x5, x6⟩
+      · exact Or.inl hx
+      · exact Or.inr ⟨v, c, hh, k, hv, x1, x2, x3, x4, x5, fun hk => absurd hk x6, fun hc => by cases hc⟩)
+
+/-- `open` on a socket, or on an acceptor that has just been closed -/
+theorem HInv.openSock {s : HS} (h : HInv s) (o : String)
+    (v : SockV) (hv : s.net.sv o = some v)
+    (hq : ∀ ac, v.acc = some ac → ac.queueLimit ≤ 0 ∧ ac.conns = []) (v4 : Bool) (extra : List ConDone)
+    (hx : extra = [] ∨ ∃ c hh k, v.chan = some c ∧ v.connectH = some hh ∧ extra = [k]
+            ∧ k.cid = some c ∧ k.sock = o ∧ k.ec ≠ .ok) :
+    HInv { s with net := (s.net.tcpOpen s.now o v4).1, bag := s.bag ++ fwdPkts (s.net.tcpOpen s.now o v4).2,
+                  conLog := s.conLog ++ extra } := by
+  obtain ⟨c1, c2, c3, c4, c5, c6, c7, _, c9⟩ := tcpOpen_sum s.net s.now o v4 v hv
+  have cnp := tcpOpen_np s.net s.now o v4
+  generalize s.net.tcpOpen s.now o v4 = r at *
+  obtain ⟨n', e⟩ := r
+  simp only at c1 c2 c3 c4 c5 c6 c7 c9 cnp ⊢
+  obtain ⟨hregm, hregl⟩ := reg_after_unbind c4
+  exact h.upd1 o ⟨true, {}, some s.net.fwds.length, none, none, v.acc⟩ n' (s.bag ++ fwdPkts e) extra
+    c1 (by rw [c2]; omega) c3 c6 c5
+    (fun e he => Or.inl (hregm e he))
+    (fun e he ho ac hac => by
+      -- an acceptor's own entry has been erased by the close part of `open`
+      have hb := h.reg_own e (hregm e he) v ac (by rw [ho]; exact hv) hac
+      show e.1 = ({} : Ep)
+      rw [c4] at he
+      split at he
+      · rename_i hd; rw [← hb]
+        cases hvb : v.bound with
+        | mk ad po => rw [hvb] at hd; simp [Ep.isDefault] at hd; rw [hd.1, hd.2]
+      · exact absurd ⟨hb.symm, ho⟩ (mem_simUnbind_ne he))
+    hregl (by rw [cnp]; exact h.np_pos) (fun e he => h.reg_nodef e (hregm e he))
+    (fun g => by
+      rw [c7 g]; simp only [hv, Option.bind_some, Option.some.injEq]
+      by_cases hg : g = s.net.fwds.length
+      · subst hg; simp
+      · have : ¬ (s.net.fwds.length = g) := fun hh => hg hh.symm
+        simp [hg, this])
+    (by simp [hv]) (fun _ => rfl) (fun _ => Or.inl rfl)
+    (fun c hc => by cases hc) (Or.inr (Or.inr ⟨rfl, by rw [c2]; omega⟩))
+    (fun hh _ => by
+      simp only [hv, Option.bind_some] at hh
+      have := (h.s_fwd o v _ hv hh.symm).1; omega)
+    (fun _ => rfl)
+    (fun _ _ => rfl) (fun _ _ hcl => by cases hcl)
+    (fun ac hac hql => by have := (hq ac hac).1; omega)
+    (fun ac hac _ => (hq ac hac).2)
+    (fun v0 hv0 hf => by
+      rw [hv] at hv0; have e := Option.some.inj hv0; rw [← e] at hf
+      have := (h.s_fwd o v _ hv hf.symm).1; omega)
+    (fun pk hpk => by
+      rcases List.mem_append.mp hpk with hp | hp
+      · exact Or.inl hp
+      · exact Or.inr (errs_not_syn c9 pk hp))
+    (pairwise_append_errs h.b_syn1 (fun q hq => (errs_not_syn c9 q hq).1))
+    (by
+      rcases hx with hx | ⟨c, hh, k, x1, x2, x3, x4, x5, x6⟩
+      · exact Or.inl hx
+      · exact Or.inr ⟨v, c, hh, k, hv, x1, x2, x3, x4, x5, fun hk => absurd hk x6, fun hc => by cases hc⟩)
+
+/-! ### `acceptor::open` (close first, then open: a new listening epoch) and `bind` -/
+
+theorem HFull.openAcc {s : HS} (h : HFull s) (a : String) (v4 : Bool) (tp : TParams) (hok : s.net.isAcc a) :
+    HFull (s.step tp (.openAcc a v4)) := by
+  have h1 := h.closeAcceptor a hok
+  obtain ⟨va, ac, hva, hac⟩ := isAcc_view hok
+  obtain ⟨_, _, _, _, c5, _⟩ := accClose_sum s.net s.now a va ac hva hac
+  simp only [HS.step]
+  generalize s.net.accClose s.now a = r1 at *
+  obtain ⟨n1, e1⟩ := r1
+  simp only at h1 c5 ⊢
+  have hv1 : n1.sv a = some ⟨false, {}, none, none, none, some { ac with queueLimit := -1, conns := [], acceptOp := none }⟩ := by
+    rw [c5 a, if_pos rfl]
+  have h2 := h1.inv.openSock a _ hv1
+    (fun ac1 hac1 => by
+      simp only [Option.some.injEq] at hac1; subst hac1
+      exact ⟨by show (-1 : Int) ≤ 0; omega, rfl⟩) v4 [] (Or.inl rfl)
+  simp only [List.append_nil] at h2
+  obtain ⟨_, _, _, _, d5, _⟩ := tcpOpen_sum n1 s.now a v4 _ hv1
+  refine ⟨h2, ?_⟩
+  apply work_upd h1.work a _ _ d5 _ _ rfl
+  intro ac1 hac1 _ hpe
+  simp only [Option.some.injEq] at hac1; subst hac1
+  cases hpe
+
+theorem HFull.bind {s : HS} (h : HFull s) (a : String) (ep : Ep)
+    (hok : ∃ sk, s.net.tcp? a = some sk ∧ sk.chan = none) :
+    HFull { s with net := (s.net.tcpBind a ep).1 } := by
+  obtain ⟨s0, hs0, hs0c⟩ := hok
+  have hva : s.net.sv a = some s0.hview := by simp [NetSt.sv, hs0]
+  have hvch : s0.hview.chan = none := hs0c
+  generalize hvdef : s0.hview = va at hva hvch
+  have hv0 : s0.hview = va := hvdef
+  obtain ⟨b1, b2, b3, b4⟩ := tcpBind_sum s.net a ep s0 hs0
+  obtain ⟨bnp, bnd⟩ := tcpBind_np s.net a ep h.inv.np_pos
+  generalize s.net.tcpBind a ep = r at *
+  obtain ⟨n', ec⟩ := r
+  simp only at b1 b2 b3 b4 bnp bnd ⊢
+  have hnd : ∀ e ∈ n'.reg.tcp, e.1.isDefault = false := by
+    intro e he
+    rcases bnd e he with h1 | h1
+    · exact h.inv.reg_nodef e h1
+    · exact h1
+  rcases b4 with ⟨r1, r2⟩ | ⟨hopn, hdef, _, ep2, r1, r2, r3⟩
+  · have hsv : ∀ o', n'.sv o' = s.net.sv o' := fun o' => by simp [NetSt.sv, r2 o']
+    have := h.inv.sameView a va hva n' s.bag b1 b2 b3 r1 bnp hsv (fun _ hp => Or.inl hp) h.inv.b_syn1
+    exact ⟨this, work_same h.work n' hsv _ rfl⟩
+  · have hopn' : va.isOpen = true := by rw [← hv0]; exact hopn
+    have hdef' : va.bound.isDefault = true := by rw [← hv0]; exact hdef
+    have hsv : ∀ o', n'.sv o' = if o' = a then some { va with bound := ep2 } else s.net.sv o' := by
+      intro o'; simp only [NetSt.sv, r3 o']; split
+      · rw [← hv0]; rfl
+      · rfl
+    have := h.inv.upd1 a { va with bound := ep2 } n' s.bag [] b1 (by rw [b2]; exact Nat.le_refl _)
+      (by rw [b3]) (fun d => by simp [NetSt.cv, NetSt.chan?, b3]) hsv
+      (fun e he => by
+        rw [r2] at he
+        rcases List.mem_append.mp he with he | he
+        · exact Or.inl he
+        · rw [List.mem_singleton] at he; subst he; exact Or.inr rfl)
+      (fun e he ho ac1 hac1 => by
+        rw [r2] at he
+        rcases List.mem_append.mp he with he | he
+        · -- no older entry of an acceptor `a`: it was unbound, and the registry never holds `0.0.0.0:0`
+          have hb := h.inv.reg_own e he va ac1 (by rw [ho]; exact hva) hac1
+          have := h.inv.reg_nodef e he
+          rw [← hb, hdef'] at this; cases this
+        · rw [List.mem_singleton] at he; subst he; rfl)
+      (fun k o' _ hl => by rw [r2]; exact lookup_append_of_some _ _ _ _ hl)
+      bnp hnd
+      (fun g => by
+        simp only [hva, Option.bind_some, NetSt.fwdTarget, b2]
+        split
+        · rename_i hg; exact (h.inv.s_fwd a va g hva hg).2
+        · rfl)
+      (by simp [hva]) (fun _ => h.inv.idle a va hva hvch)
+      (fun _ => Or.inr (by rw [r2]; exact lookup_append_none _ _ _ r1))
+      (fun c0 hc0 => by simp only at hc0; rw [hvch] at hc0; cases hc0)
+      (Or.inl (by simp [hva])) (fun _ _ => by simp [hva]) (fun hop => h.inv.o_fwd a va hva hop)
+      (fun _ _ => hvch) (fun ac1 hac1 hcl => by simp only at hcl; rw [hopn'] at hcl; cases hcl)
+      (fun ac1 hac1 hq => by
+        have := h.inv.a_lis a va ac1 hva hac1 hq; rw [hdef'] at this; cases this)
+      (fun ac1 hac1 hf => by have := (h.inv.s_fwd a va _ hva hf).1; omega)
+      (fun v0 hv0' hf => by
+        right; intro d hd hdf
+        simp only at hdf
+        have := (h.inv.d_acc d hd a va hva hdf).2.1
+        have ht := h.inv.dial_target d hd
+        rw [← this, hdef'] at ht; cases ht)
+      (fun _ hp => Or.inl hp) h.inv.b_syn1 (Or.inl rfl)
+    simp only [List.append_nil] at this
+    refine ⟨this, ?_⟩
+    apply work_upd h.work a _ n' hsv _ _ rfl
+    intro ac1 hac1 hop1 hpe
+    simp only at hac1 hop1
+    exact h.work a va ac1 hva hac1 hop1 hpe
+
+/-! ### natRewrite -/
+
+theorem natApply_fst (ext : String) (pk : Pkt) (chans : List Chan) :
+    (natApply ext pk chans).1 = { pk with src := natRewrite pk.src ext } := rfl
+
+theorem natApply_snd_nonsyn (ext : String) (pk : Pkt) (chans : List Chan) (h : pk.ty ≠ .syn) :
+    (natApply ext pk chans).2 = chans := by
+  unfold natApply natApplyP
+  cases hc : pk.chan.bind (fun c => chans[c]?) with
+  | none => rfl
+  | some ch =>
+    have : (pk.ty == PType.syn) = false := by simp [h]
+    simp [this]
+
+theorem natApply_snd_syn (ext : String) (pk : Pkt) (chans : List Chan) (c : Nat) (ch : Chan)
+    (h : pk.ty = .syn) (hc : pk.chan = some c) (hch : chans[c]? = some ch) :
+    (natApply ext pk chans).2 = chans.mapIdx (fun i x => if i = c then { ch with vis0 := { ch.vis0 with addr := ext } } else x) := by
+  unfold natApply natApplyP
+  simp [hc, hch, h]
+
+theorem HFull.natRw {s : HS} (h : HFull s) (i : Nat) (ext : String) (tp : TParams) :
+    HFull (s.step tp (.natRewrite i ext)) := by
+  simp only [HS.step]
+  split
+  · exact h
+  · rename_i pk hi
+    by_cases hty : pk.ty = .syn
+    · obtain ⟨c, cv0, q1, q2, q3, _⟩ := h.inv.b_syn pk (List.mem_of_getElem? hi) hty
+      obtain ⟨ch, hch, hchv⟩ := cv_some q2
+      have hch' : s.net.chans[c]? = some ch := hch
+      rw [natApply_snd_syn ext pk s.net.chans c ch hty q1 hch', natApply_fst]
+      simp only [hty, if_true, q1, Option.toList_some, List.map_cons, List.map_nil]
+      have e1 : ({ s.net with chans := s.net.chans.mapIdx (fun i x => if i = c then { ch with vis0 := { ch.vis0 with addr := ext } } else x) } : NetSt)
+          = s.net.setChan c { ch with vis0 := { ch.vis0 with addr := ext } } := rfl
+      rw [e1]
+      have hcv : ∀ d, (s.net.setChan c { ch with vis0 := { ch.vis0 with addr := ext } }).cv d
+          = if d = c then some { cv0 with vis0 := { cv0.vis0 with addr := ext } } else s.net.cv d := by
+        intro d; rw [cv_setChan]; split
+        · rename_i hd; subst hd; rw [q2, ← hchv]; rfl
+        · rfl
+      have h1 := h.inv.visRw c ext cv0 q2 q3 (s.net.setChan c { ch with vis0 := { ch.vis0 with addr := ext } })
+        rfl rfl (by simp) rfl h.inv.np_pos (fun _ => rfl) (fun _ => rfl) hcv
+      refine ⟨HInv.bagSet h1 i pk _ hi ?_ ?_ ?_, ?_⟩
+      · exact hty.symm
+      · exact q1.symm
+      · rfl
+      · exact work_same h.work (s.net.setChan c { ch with vis0 := { ch.vis0 with addr := ext } }) (fun _ => rfl) _ rfl
+    · rw [natApply_snd_nonsyn ext pk s.net.chans hty, natApply_fst]
+      simp only [hty, if_false, List.append_nil]
+      have h2 := h.inv.bagSet i pk { pk with src := natRewrite pk.src ext } hi rfl rfl rfl
+      exact ⟨h2, h.work⟩
+
+/-! ### deliverSynAck, cancel, close -/
+
+theorem HFull.deliverSynAck {s : HS} (h : HFull s) (i : Nat) (c : String) (tp : TParams)
+    (hok : s.ok (.deliverSynAck i c)) : HFull (s.step tp (.deliverSynAck i c)) := by
+  obtain ⟨pk, hi, hty, f, hlast, hft0⟩ := hok
+  obtain ⟨v, hv, hvf⟩ := h.inv.f_own f c hft0
+  obtain ⟨t1, t2⟩ := tcpIncoming_synack tp s.net s.now c pk v hv hty
+  simp only [HS.step, hi]
+  have hbag : ∀ q ∈ s.bag.eraseIdx i ++ [], q ∈ s.bag ∨ (q.ty ≠ .syn ∧ q.ty ≠ .synack) := by
+    intro q hq; rw [List.append_nil] at hq; exact Or.inl (List.mem_of_mem_eraseIdx hq)
+  have hbag1 : (s.bag.eraseIdx i ++ []).Pairwise (fun (p q : Pkt) => p.ty = PType.syn → q.ty = PType.syn → p.chan ≠ q.chan) := by
+    rw [List.append_nil]; exact pairwise_eraseIdx h.inv.b_syn1 i
+  cases hch : v.connectH with
+  | none =>
+    rw [t1 hch]
+    simp only [fwdPkts_nil, okPosts_nil, List.map_nil, List.append_nil]
+    have := h.inv.sameView c v hv s.net (s.bag.eraseIdx i ++ []) rfl rfl rfl rfl h.inv.np_pos (fun _ => rfl) hbag hbag1
+    simp only [List.append_nil] at this
+    exact ⟨this, work_same h.work s.net (fun _ => rfl) _ rfl⟩
+  | some hh =>
+    obtain ⟨s0, hs0, hv0, he⟩ := t2 hh hch
+    rw [he]
+    have hfw : fwdPkts [NEff.post { h := hh, ec := Ec.ok }, NEff.tcpWake c] = [] := rfl
+    have hok' : okPosts [NEff.post { h := hh, ec := Ec.ok }, NEff.tcpWake c] = [{ h := hh, ec := Ec.ok }] := rfl
+    simp only [hfw, hok', List.map_cons, List.map_nil, hs0, Option.bind_some]
+    have hsv : ∀ o', (s.net.setTcp c { s0 with connectH := none }).sv o'
+        = if o' = c then some { v with connectH := none } else s.net.sv o' := by
+      intro o'; rw [sv_setTcp]; split
+      · rw [← hv0]; rfl
+      · rfl
+    -- the SYN-ACK belongs to the channel this socket dialled, and that channel was accepted
+    obtain ⟨c0, cv, q1, q2, q3, e, he', q4⟩ := h.inv.b_ack pk (List.mem_of_getElem? hi) hty
+    have hlt : c0 < s.dialLog.length := by rw [h.inv.dial_len]; exact cv_lt q2
+    have hd : s.dialLog[c0]? = some s.dialLog[c0] := List.getElem?_eq_getElem hlt
+    obtain ⟨r1, _, _, _, _, _, _, _, f0, r8, _, _, r11⟩ := h.inv.chan_ok c0 cv _ q2 hd
+    have hff : f = f0 := by
+      rw [q3, r11, List.getLast?_append, List.getLast?_singleton] at hlast
+      simp at hlast; exact (fwdHop_inj hlast).symm
+    subst hff
+    have hvc : v.chan = some c0 := by
+      have := h.inv.d_live _ (List.getElem_mem hlt) c v f hv hvf r8
+      rw [this, r1]
+    have hvacc : v.acc = none := h.inv.not_acc_of_chan c v c0 hv hvc
+    have hs0c : s0.chan = some c0 := by rw [← hvc, ← hv0]; rfl
+    have := h.inv.upd1 c { v with connectH := none } (s.net.setTcp c { s0 with connectH := none })
+      (s.bag.eraseIdx i ++ []) [{ sock := c, h := hh, ec := .ok, cid := s0.chan }]
+      rfl (Nat.le_refl _) rfl (fun _ => rfl) hsv (fun e he => Or.inl he)
+      (fun e he ho ac hac => by simp only at hac; rw [hvacc] at hac; cases hac)
+      (fun _ _ _ hl => hl) h.inv.np_pos h.inv.reg_nodef
+      (fun g => by
+        simp only [hv, Option.bind_some, setTcp_fwdTarget]
+        split
+        · rename_i hg; exact (h.inv.s_fwd c v g hv hg).2
+        · rfl)
+      (by simp [hv]) (fun _ => rfl)
+      (fun hc => by simp only at hc; rw [hvc] at hc; cases hc)
+      (fun c1 hc1 => ⟨v, hv, hc1, rfl, rfl, Or.inr rfl⟩)
+      (Or.inl (by simp [hv])) (fun _ _ => by simp [hv]) (fun hop => h.inv.o_fwd c v hv hop)
+      (fun ac hac => by simp only at hac; rw [hvacc] at hac; cases hac)
+      (fun ac hac => by simp only at hac; rw [hvacc] at hac; cases hac)
+      (fun ac hac => by simp only at hac; rw [hvacc] at hac; cases hac)
+      (fun ac hac => by simp only at hac; rw [hvacc] at hac; cases hac)
+      (fun v0 hv0 _ => by rw [hv] at hv0; have e := Option.some.inj hv0; rw [← e]; exact Or.inl rfl)
+      hbag hbag1
+      (Or.inr ⟨v, c0, hh, _, hv, hvc, hch, rfl, hs0c, rfl, fun _ => ⟨e, he', q4⟩, fun _ => rfl⟩)
+    refine ⟨this, ?_⟩
+    apply work_upd h.work c _ _ hsv _ _ rfl
+    intro ac hac; simp only at hac; rw [hvacc] at hac; cases hac
+
+theorem pendAbort_cases (n : NetSt) (o : String) (v : SockV) (hv : n.sv o = some v) :
+    (v.connectH = none ∧ pendAbort n o = [])
+    ∨ (∃ hh, v.connectH = some hh ∧ pendAbort n o = [{ sock := o, h := hh, ec := .aborted, cid := v.chan }]) := by
+  obtain ⟨s0, hs0, hv0⟩ := sv_some hv
+  have e1 : s0.connectH = v.connectH := congrArg SockV.connectH hv0
+  have e2 : s0.chan = v.chan := congrArg SockV.chan hv0
+  unfold pendAbort
+  simp only [hs0]
+  cases hc : v.connectH with
+  | none => left; rw [e1, hc]; exact ⟨rfl, rfl⟩
+  | some hh => right; rw [e1, hc, e2]; exact ⟨hh, rfl, rfl⟩
+
+/-- the connect a user `cancel` / `close` aborts, as the update lemmas want it -/
+theorem HInv.pendAbort_ok {s : HS} (h : HInv s) (o : String) (v : SockV) (hv : s.net.sv o = some v) :
+    pendAbort s.net o = [] ∨ ∃ c hh k, v.chan = some c ∧ v.connectH = some hh ∧ pendAbort s.net o = [k]
+            ∧ k.cid = some c ∧ k.sock = o ∧ k.ec ≠ .ok := by
+  rcases pendAbort_cases s.net o v hv with ⟨_, h2⟩ | ⟨hh, h1, h2⟩
+  · exact Or.inl h2
+  · right
+    cases hc : v.chan with
+    | none => have := h.idle o v hv hc; rw [h1] at this; cases this
+    | some c => exact ⟨c, hh, _, rfl, h1, by rw [h2, hc], rfl, rfl, by intro hx; cases hx⟩
+
+theorem HFull.close {s : HS} (h : HFull s) (o : String) (tp : TParams) (hok : s.net.isSock o) :
+    HFull (s.step tp (.close o)) := by
+  obtain ⟨v, hv, hvacc⟩ := isSock_view hok
+  simp only [HS.step]
+  refine ⟨h.inv.closeSock o v hv hvacc _ (h.inv.pendAbort_ok o v hv), ?_⟩
+  obtain ⟨_, _, _, _, c5, _⟩ := tcpClose_sum s.net s.now o v hv
+  apply work_upd h.work o _ _ c5 _ _ rfl
+  intro ac hac; simp only at hac; rw [hvacc] at hac; cases hac
+
+theorem HFull.openSockL {s : HS} (h : HFull s) (o : String) (v4 : Bool) (tp : TParams) (hok : s.net.isSock o) :
+    HFull (s.step tp (.openSock o v4)) := by
+  obtain ⟨v, hv, hvacc⟩ := isSock_view hok
+  simp only [HS.step]
+  refine ⟨h.inv.openSock o v hv (fun ac hac => by rw [hvacc] at hac; cases hac) v4 _ (h.inv.pendAbort_ok o v hv), ?_⟩
+  obtain ⟨_, _, _, _, c5, _⟩ := tcpOpen_sum s.net s.now o v4 v hv
+  apply work_upd h.work o _ _ c5 _ _ rfl
+  intro ac hac; simp only at hac; rw [hvacc] at hac; cases hac
+
+theorem HFull.cancel {s : HS} (h : HFull s) (o : String) (tp : TParams) (hok : s.net.isSock o) :
+    HFull (s.step tp (.cancel o)) := by
+  obtain ⟨v, hv, hvacc⟩ := isSock_view hok
+  obtain ⟨s0, hs0, hv0⟩ := sv_some hv
+  simp only [HS.step]
+  rw [tcpCancel_eq s.net o s0 hs0]
+  obtain ⟨c1, _, c3⟩ := cancel_sum s0
+  simp only [c3, List.append_nil]
+  have hsv : ∀ o', (s.net.setTcp o s0.cancel.1).sv o' = if o' = o then some { v with connectH := none } else s.net.sv o' := by
+    intro o'; rw [sv_setTcp]; split
+    · rw [c1, hv0]
+    · rfl
+  have := h.inv.upd1 o { v with connectH := none } (s.net.setTcp o s0.cancel.1) s.bag (pendAbort s.net o)
+    rfl (Nat.le_refl _) rfl (fun _ => rfl) hsv (fun e he => Or.inl he)
+    (fun e he ho ac hac => by simp only at hac; rw [hvacc] at hac; cases hac)
+    (fun _ _ _ hl => hl) h.inv.np_pos h.inv.reg_nodef
+    (fun g => by
+      simp only [hv, Option.bind_some, setTcp_fwdTarget]
+      split
+      · rename_i hg; exact (h.inv.s_fwd o v g hv hg).2
+      · rfl)
+    (by simp [hv]) (fun _ => rfl)
+    (fun hc => h.inv.bound_reg o v hv hc)
+    (fun c1 hc1 => ⟨v, hv, hc1, rfl, rfl, Or.inr rfl⟩)
+    (Or.inl (by simp [hv])) (fun _ _ => by simp [hv]) (fun hop => h.inv.o_fwd o v hv hop)
+    (fun ac hac => by simp only at hac; rw [hvacc] at hac; cases hac)
+    (fun ac hac => by simp only at hac; rw [hvacc] at hac; cases hac)
+    (fun ac hac => by simp only at hac; rw [hvacc] at hac; cases hac)
+    (fun ac hac => by simp only at hac; rw [hvacc] at hac; cases hac)
+    (fun v0 hv0 _ => by rw [hv] at hv0; have e := Option.some.inj hv0; rw [← e]; exact Or.inl rfl)
+    (fun _ hp => Or.inl hp) h.inv.b_syn1
+    (by
+      rcases h.inv.pendAbort_ok o v hv with hx | ⟨c, hh, k, x1, x2, x3, x4, x5, x6⟩
+      · exact Or.inl hx
+      · exact Or.inr ⟨v, c, hh, k, hv, x1, x2, x3, x4, x5, fun hk => absurd hk x6, fun _ => rfl⟩)
+  refine ⟨this, ?_⟩
+  apply work_upd h.work o _ _ hsv _ _ rfl
+  intro ac hac; simp only at hac; rw [hvacc] at hac; cases hac
+
+/-! ### `check_accept_queue` (the second half of `deliverSyn` and of `accept`) -/
+
+theorem epochOf_of_sv {n : NetSt} {a : String} {va : SockV} {f : Nat} (hva : n.sv a = some va) (hf : va.fwd = some f) :
+    n.epochOf a = f := by rw [epochOf_sv, hva]; simp [hf]
+
+theorem boundOf_of_sv {n : NetSt} {a : String} {va : SockV} (hva : n.sv a = some va) : n.boundOf a = va.bound := by
+  rw [boundOf_sv, hva]; rfl
+
+theorem HInv.check {s : HS} (h : HInv s) (a : String) (hacc : s.net.isAcc a)
+    (hw : ∀ a1 va1 ac1, a1 ≠ a → s.net.sv a1 = some va1 → va1.acc = some ac1 → va1.isOpen = true →
+            ac1.acceptOp.isSome → ac1.conns = []) :
+    HFull { s with net := (s.net.accCheckQueue s.now a).1,
+                   bag := s.bag ++ fwdPkts (s.net.accCheckQueue s.now a).2,
+                   accLog := s.accLog ++ accDones a (s.net.epochOf a) (s.net.boundOf a) (s.accCalls a - 1)
+                                (s.net.pendingAccept a)
+                                (s.net.accCheckQueue s.now a).1 (s.net.accCheckQueue s.now a).2 } := by
+  obtain ⟨va, ac, hva, hac⟩ := isAcc_view hacc
+  have hvch := h.a_chan a va ac hva hac
   rw [pendingAccept_of_sv hva hac]
+  have hwork : ∀ (n' : NetSt) (v' : SockV), (∀ o', o' ≠ a → n'.sv o' = s.net.sv o' ∨ ∃ v1, n'.sv o' = some v1 ∧ v1.acc = none) →
+      n'.sv a = some v' → (∀ ac1, v'.acc = some ac1 → v'.isOpen = true → ac1.acceptOp.isSome → ac1.conns = []) →
+      ∀ s' : HS, s'.net = n' → HInv.work s' := by
+    intro n' v' ho ha hv' s' hs' a1 va1 ac1 hva1 hac1 hop1 hpe1
+    rw [hs'] at hva1
+    by_cases h1 : a1 = a
+    · subst h1; rw [ha] at hva1; cases hva1; exact hv' ac1 hac1 hop1 hpe1
+    · rcases ho a1 h1 with h2 | ⟨v1, h2, h3⟩
+      · rw [h2] at hva1; exact hw a1 va1 ac1 h1 hva1 hac1 hop1 hpe1
+      · rw [h2] at hva1; cases hva1; rw [h3] at hac1; cases hac1
   cases hopen : va.isOpen with
   | false =>
     obtain ⟨c1, c2, c3, c4, c5, c6, c7⟩ := accCheckQueue_closed s.net s.now a va ac hva hac hopen
@@ -245,13 +656,15 @@ theorem HInv.check {a : String} {aep : Ep} {s : HS} (h : HInv a aep s) :
     obtain ⟨n', e⟩ := r
     simp only at c1 c2 c3 c4 c5 c6 c7 ⊢
     simp only [accDones, c6, List.map_nil, List.append_nil]
-    obtain ⟨dropped, hf, _⟩ := h.fifo va ac hva hac
-    have := h.updA va ac { ac with conns := [], acceptOp := none } hva hac n' (s.bag ++ fwdPkts e) s.synLog s.accCalls
+    have hfn : va.fwd = none := (h.a_closed a va ac hva hac hopen).2
+    have := h.updA a va ac { ac with conns := [], acceptOp := none } hva hac n' (s.bag ++ fwdPkts e) s.synLog s.accCalls
       c1 (by rw [c2]) (by rw [c3]) (fun c => by simp [NetSt.cv, NetSt.chan?, c3]) c5 (by rw [c4])
+      (by rw [c4]; exact h.np_pos)
       (fun g => by simp [NetSt.fwdTarget, c2])
-      (fun hc => (h.a_closed va ac hva hac hc).1)
-      ⟨dropped ++ ac.conns, by simp [hf], fun hh => by rw [hopen] at hh; cases hh⟩
-      (fun op hop => by cases hop) (Nat.le_refl _) h.syn_lt h.syn_nd
+      (fun hc => (h.a_closed a va ac hva hac hc).1)
+      (fun hq => h.a_lis a va ac hva hac hq)
+      (fun f hf => by rw [hfn] at hf; cases hf) (fun _ _ => rfl)
+      (fun op hop => by cases hop) (fun _ => Nat.le_refl _) (fun _ _ => rfl) h.syn_lt h.syn_nd h.syn_ep
       (fun pk hpk => by
         rcases List.mem_append.mp hpk with hp | hp
         · exact Or.inl hp
@@ -262,17 +675,15 @@ theorem HInv.check {a : String} {aep : Ep} {s : HS} (h : HInv a aep s) :
         · obtain ⟨c', _, q1, _, q3, _⟩ := h.b_syn pk hp hty
           rw [hc] at q1; cases q1; exact q3
         · exact absurd hty (errs_not_syn c7 pk hp).1)
-    refine ⟨this, ?_⟩
-    intro va1 ac1 hva1 _ hop1 _
-    rw [c5 a, if_pos rfl] at hva1; cases hva1
-    rw [hopen] at hop1; cases hop1
+    refine ⟨this, hwork n' _ (fun o' ho' => Or.inl (by rw [c5 o', if_neg ho'])) (by rw [c5 a, if_pos rfl]) ?_ _ rfl⟩
+    intro ac1 _ hop1 _
+    simp only at hop1; rw [hopen] at hop1; cases hop1
   | true =>
     by_cases hidle : ac.acceptOp = none ∨ ac.conns = []
     · rw [accCheckQueue_idle s.net s.now a va ac hva hac hopen hidle]
       simp only [fwdPkts_nil, List.append_nil, accDones, okPosts_nil, List.map_nil]
-      refine ⟨h, ?_⟩
-      intro va1 ac1 hva1 hac1 _ hpe
-      rw [hva] at hva1; cases hva1
+      refine ⟨h, hwork s.net va (fun _ _ => Or.inl rfl) hva ?_ _ rfl⟩
+      intro ac1 hac1 _ hpe
       rw [hac] at hac1; cases hac1
       rcases hidle with hi | hi
       · rw [hi] at hpe; cases hpe
@@ -287,18 +698,19 @@ theorem HInv.check {a : String} {aep : Ep} {s : HS} (h : HInv a aep s) :
         | nil => exact absurd (Or.inr hc) hidle
         | cons c rest => exact ⟨c, rest, rfl⟩
       obtain ⟨c, rest, hcs⟩ := hcs
-      obtain ⟨hpa, hpe, _, _⟩ := h.pend va ac op hva hac hop
-      obtain ⟨vp, hvp⟩ := Option.isSome_iff_exists.mp hpe
-      obtain ⟨dropped, hf, _⟩ := h.fifo va ac hva hac
-      have hclt : c < s.net.chans.length := by
-        apply h.syn_lt; rw [hf, hcs]; simp
+      obtain ⟨⟨vp, hvp, hvpa⟩, _, _⟩ := h.pend a va ac op hva hac hop
+      have hpa : op.peer ≠ a := by
+        intro hh; rw [hh, hva] at hvp; cases hvp; rw [hac] at hvpa; cases hvpa
+      obtain ⟨f, hvf⟩ := Option.isSome_iff_exists.mp (h.o_fwd a va hva hopen)
+      have hclt : c < s.net.chans.length :=
+        (h.syn_lt _ (h.queued_syn a va ac f c hva hac hvf (by rw [hcs]; simp))).1
       obtain ⟨cv0, hcv0⟩ := cv_of_lt hclt
       obtain ⟨c1, c2, c3, c4, c5, c6, c7, c8, c9⟩ :=
         accCheckQueue_pop s.net s.now a va ac op c rest vp cv0 hva hac hopen hop hcs hpa hvp hcv0
+      have cnp := accCheckQueue_np s.net s.now a
       generalize s.net.accCheckQueue s.now a = r at *
       obtain ⟨n', e⟩ := r
-      simp only at c1 c2 c3 c4 c5 c6 c7 c8 c9 ⊢
-      have hpeer : n'.tcp? op.peer = some _ ∧ True := ⟨(sv_some (by rw [c5, if_pos rfl])).choose_spec.1, trivial⟩
+      simp only at c1 c2 c3 c4 c5 c6 c7 c8 c9 cnp ⊢
       have hcid : ((some op).bind fun op => n'.tcp? op.peer).bind (·.chan) = some c := by
         obtain ⟨sp, hsp, hspv⟩ := sv_some (show n'.sv op.peer = some _ by rw [c5, if_pos rfl])
         simp only [Option.bind_some, hsp]
@@ -307,14 +719,17 @@ theorem HInv.check {a : String} {aep : Ep} {s : HS} (h : HInv a aep s) :
         obtain ⟨sp, hsp, hspv⟩ := sv_some (show n'.sv op.peer = some _ by rw [c5, if_pos rfl])
         simp only [Option.bind_some, hsp]
         exact congrArg SockV.fwd hspv
-      simp only [accDones, c8, List.map_cons, List.map_nil, hop, hcid, hfwd']
-      have := h.attach va ac op c rest vp cv0 hva hac hopen hop hcs hvp hcv0 n' (fwdPkts e) _
-        c1 c2 c3 c4 c5 c6 c7 rfl c9
-      refine ⟨this, ?_⟩
-      intro va1 ac1 hva1 hac1 _ hpe1
-      rw [c5 a, if_neg (Ne.symm hpa), if_pos rfl] at hva1; cases hva1
-      simp only [Option.some.injEq] at hac1; subst hac1
-      cases hpe1
+      simp only [accDones, c8, List.map_cons, List.map_nil, hop, hcid, hfwd', epochOf_of_sv hva hvf, boundOf_of_sv hva]
+      have := h.attach a va ac op c rest vp cv0 f hva hac hopen hvf hop hcs hvp hvpa hcv0 n' (fwdPkts e) _
+        c1 c2 c3 c4 (by rw [cnp]; exact h.np_pos) c5 c6 c7 rfl c9
+      refine ⟨this, hwork n' _ ?_ (by rw [c5 a, if_neg (Ne.symm hpa), if_pos rfl]) ?_ _ rfl⟩
+      · intro o' ho'
+        by_cases hp : o' = op.peer
+        · exact Or.inr ⟨⟨true, va.bound, some s.net.fwds.length, some c, none, vp.acc⟩, by rw [c5 o', if_pos hp], hvpa⟩
+        · exact Or.inl (by rw [c5 o', if_neg hp, if_neg ho'])
+      · intro ac1 hac1 _ hpe1
+        simp only [Option.some.injEq] at hac1; subst hac1
+        cases hpe1
 
 /-! ### deliverSyn -/
 
@@ -337,40 +752,63 @@ theorem pairwise_eraseIdx_rel {α : Type} {R : α → α → Prop} {l : List α}
       · subst hy; exact Or.inr (h.1 x (List.mem_of_getElem? hx))
       · exact ih h.2 j hx hy
 
-theorem HFull.deliverSyn {a : String} {aep : Ep} {s : HS} (h : HFull a aep s) (i : Nat) (tp : TParams)
-    (hok : s.ok a (.deliverSyn i)) : HFull a aep (s.step a tp (.deliverSyn i)) := by
+theorem HFull.deliverSyn {s : HS} (h : HFull s) (i : Nat) (a : String) (tp : TParams)
+    (hok : s.ok (.deliverSyn i a)) : HFull (s.step tp (.deliverSyn i a)) := by
   obtain ⟨pk, hi, hty, f, hlast, hft0⟩ := hok
   obtain ⟨c, cv, q1, q2, q3, q4⟩ := h.inv.b_syn pk (List.mem_of_getElem? hi) hty
   obtain ⟨va, hva, hvf⟩ := h.inv.f_own f a hft0
-  obtain ⟨va', ac, hva', hac, _⟩ := h.inv.a_ex
-  rw [hva] at hva'; cases hva'
+  -- the SYN was dialled towards this very forwarder: `a` is the acceptor of that epoch
+  have hlt : c < s.dialLog.length := by rw [h.inv.dial_len]; exact cv_lt q2
+  have hd : s.dialLog[c]? = some s.dialLog[c] := List.getElem?_eq_getElem hlt
+  have hq1 := h.inv.hops1_q c cv _ q2 hd (h.inv.not_acc_of_not_syn c q3)
+  have hfe : s.dialLog[c].epoch = f := by
+    rw [q4, hq1, List.getLast?_append, List.getLast?_singleton] at hlast
+    simp at hlast; exact fwdHop_inj hlast
+  obtain ⟨_, _, hvacc⟩ := h.inv.d_acc _ (List.getElem_mem hlt) a va hva (by rw [hfe]; exact hvf)
+  obtain ⟨ac, hac⟩ := Option.isSome_iff_exists.mp hvacc
   have hopen : va.isOpen = true := by
     cases ho : va.isOpen with
     | true => rfl
-    | false => have := (h.inv.a_closed va ac hva hac ho).2.2; rw [hvf] at this; cases this
+    | false => have := (h.inv.a_closed a va ac hva hac ho).2; rw [hvf] at this; cases this
   obtain ⟨s0, hs0, hv0⟩ := sv_some hva
   have hs0acc : s0.acc = some ac := by rw [← hac, ← hv0]; rfl
-  simp only [HS.step, hi, hty, if_true, q1, Option.toList_some]
-  rw [accIncoming_syn s.net s.now a pk c s0 ac hs0 hs0acc hty q1]
+  have hacc : s.net.isAcc a := ⟨s0, hs0, by rw [hs0acc]; rfl⟩
+  simp only [HS.step, hi, hty, if_true, q1, Option.toList_some, List.map_cons, List.map_nil]
+  rw [accIncoming_syn s.net s.now a pk c s0 ac hs0 hs0acc hty q1, epochOf_of_sv hva hvf]
   -- first the SYN is queued …
   have hsv : ∀ o, (s.net.setTcp a { s0 with acc := some { ac with conns := ac.conns ++ [c] } }).sv o
       = if o = a then some { va with acc := some { ac with conns := ac.conns ++ [c] } } else s.net.sv o := by
     intro o; rw [sv_setTcp]; split
     · rw [← hv0]; rfl
     · rfl
-  obtain ⟨dropped, hf, hdr⟩ := h.inv.fifo va ac hva hac
-  have hd := hdr hopen; subst hd
-  have h1 := h.inv.updA va ac { ac with conns := ac.conns ++ [c] } hva hac
-    (s.net.setTcp a { s0 with acc := some { ac with conns := ac.conns ++ [c] } }) (s.bag.eraseIdx i) (s.synLog ++ [c]) s.accCalls
-    rfl rfl rfl (fun _ => rfl) hsv rfl (fun _ => rfl) (fun hc => by rw [hopen] at hc; cases hc)
-    ⟨[], by simp [hf], fun _ => rfl⟩
-    (fun op hop => h.inv.pend va ac op hva hac hop) (Nat.le_refl _)
-    (fun c' hc' => by
-      rcases List.mem_append.mp hc' with hc' | hc'
-      · exact h.inv.syn_lt c' hc'
-      · rw [List.mem_singleton] at hc'; subst hc'; exact cv_lt q2)
-    (by rw [List.nodup_append]; exact ⟨h.inv.syn_nd, by simp, by
-          intro x hx y hy; rw [List.mem_singleton] at hy; subst hy; intro hxy; subst hxy; exact q3 hx⟩)
+  have hfifo := h.inv.fifo a va ac f hva hac hvf
+  have h1 := h.inv.updA a va ac { ac with conns := ac.conns ++ [c] } hva hac
+    (s.net.setTcp a { s0 with acc := some { ac with conns := ac.conns ++ [c] } }) (s.bag.eraseIdx i) (s.synLog ++ [(f, c)]) s.accCalls
+    rfl rfl rfl (fun _ => rfl) hsv rfl h.inv.np_pos (fun _ => rfl) (fun hc => by rw [hopen] at hc; cases hc)
+    (fun hq => h.inv.a_lis a va ac hva hac hq)
+    (fun f1 hf1 => by
+      rw [hvf] at hf1; cases hf1
+      rw [synAtL_append, synAtL_single_same, hfifo, List.append_assoc])
+    (fun f1 hf1 => by
+      have : f ≠ f1 := fun hh => hf1 (by rw [hvf, hh])
+      rw [synAtL_append, synAtL_single_other _ _ _ this, List.append_nil])
+    (fun op hop => h.inv.pend a va ac op hva hac hop) (fun _ => Nat.le_refl _) (fun _ _ => rfl)
+    (fun x hx => by
+      rcases List.mem_append.mp hx with hx | hx
+      · exact h.inv.syn_lt x hx
+      · rw [List.mem_singleton] at hx; subst hx; exact ⟨cv_lt q2, (h.inv.s_fwd a va f hva hvf).1⟩)
+    (by
+      rw [List.map_append, List.nodup_append]
+      refine ⟨h.inv.syn_nd, by simp, ?_⟩
+      intro x hx y hy
+      simp only [List.map_cons, List.map_nil, List.mem_singleton] at hy
+      subst hy; intro hxy; subst hxy; exact q3 hx)
+    (fun x hx d hdx => by
+      rcases List.mem_append.mp hx with hx | hx
+      · exact h.inv.syn_ep x hx d hdx
+      · rw [List.mem_singleton] at hx; subst hx
+        simp only at hdx ⊢
+        rw [hd] at hdx; cases hdx; exact hfe)
     (fun q hq => Or.inl (List.mem_of_mem_eraseIdx hq))
     (pairwise_eraseIdx h.inv.b_syn1 i)
     (fun q hq hqt c' hc' => by
@@ -378,85 +816,30 @@ theorem HFull.deliverSyn {a : String} {aep : Ep} {s : HS} (h : HFull a aep s) (i
       obtain ⟨c'', _, r1, _, r3, _⟩ := h.inv.b_syn q hqb hqt
       rw [hc'] at r1; cases r1
       intro hin
+      rw [List.map_append] at hin
       rcases List.mem_append.mp hin with hin | hin
       · exact r3 hin
-      · rw [List.mem_singleton] at hin; subst hin
+      · simp only [List.map_cons, List.map_nil, List.mem_singleton] at hin; subst hin
         rcases pairwise_eraseIdx_rel h.inv.b_syn1 i pk q hi hq with hr | hr
         · exact hr hty hqt (by rw [q1, hc'])
         · exact hr hqt hty (by rw [q1, hc']))
   -- … then `check_accept_queue` runs
-  have h2 := h1.check
+  have hacc1 : (s.net.setTcp a { s0 with acc := some { ac with conns := ac.conns ++ [c] } }).isAcc a :=
+    ⟨_, tcp?_setTcp_same _ _ _, rfl⟩
+  have h2 := h1.check a hacc1
+    (fun a1 va1 ac1 hne hva1 hac1 hop1 hpe1 => by
+      simp only at hva1; rw [hsv, if_neg hne] at hva1
+      exact h.work a1 va1 ac1 hva1 hac1 hop1 hpe1)
   simp only at h2
   have e1 : (s.net.setTcp a { s0 with acc := some { ac with conns := ac.conns ++ [c] } }).pendingAccept a
       = s.net.pendingAccept a := by
     rw [pendingAccept_of_sv (by rw [hsv, if_pos rfl]) rfl, pendingAccept_of_sv hva hac]
-  rw [e1] at h2
+  have e2 : (s.net.setTcp a { s0 with acc := some { ac with conns := ac.conns ++ [c] } }).epochOf a = f :=
+    epochOf_of_sv (va := { va with acc := some { ac with conns := ac.conns ++ [c] } }) (by rw [hsv, if_pos rfl]) hvf
+  have e3 : (s.net.setTcp a { s0 with acc := some { ac with conns := ac.conns ++ [c] } }).boundOf a = s.net.boundOf a := by
+    rw [boundOf_of_sv (va := { va with acc := some { ac with conns := ac.conns ++ [c] } }) (by rw [hsv, if_pos rfl]), boundOf_of_sv hva]
+  rw [e1, e2, e3] at h2
   exact h2
-
-/-! ### closing / opening a socket other than the acceptor -/
-
-theorem HInv.closeSock {a : String} {aep : Ep} {s : HS} (h : HInv a aep s) (hae : aep ≠ {}) (o : String) (hoa : o ≠ a)
-    (v : SockV) (hv : s.net.sv o = some v) :
-    HInv a aep { s with net := (s.net.tcpClose s.now o).1, bag := s.bag ++ fwdPkts (s.net.tcpClose s.now o).2 } := by
-  obtain ⟨c1, c2, c3, c4, c5, c6, c7, _, c9⟩ := tcpClose_sum s.net s.now o v hv
-  generalize s.net.tcpClose s.now o = r at *
-  obtain ⟨n', e⟩ := r
-  simp only at c1 c2 c3 c4 c5 c6 c7 c9 ⊢
-  exact h.upd1 o hoa ⟨false, {}, none, none, none, v.acc⟩ n' (s.bag ++ fwdPkts e) s.conLog
-    c1 (by rw [c2]; exact Nat.le_refl _) c3 c6 c5
-    (fun e he => by
-      rw [c4] at he; split at he
-      · exact Or.inl he
-      · exact Or.inl (mem_simUnbind he))
-    (fun hl => by
-      rw [c4]; split
-      · exact hl
-      · exact lookup_simUnbind _ _ _ _ _ hoa hl)
-    (fun g => by rw [c7 g]; simp [hv])
-    (h.o_acc o v hoa hv) (fun _ => rfl) (fun _ _ _ _ => fun hh => hae hh.symm)
-    (fun c hc => by cases hc) (Or.inr (Or.inl rfl)) (fun _ hh => by cases hh) (fun hh => by cases hh)
-    (fun pk hpk => by
-      rcases List.mem_append.mp hpk with hp | hp
-      · exact Or.inl hp
-      · exact Or.inr (errs_not_syn c9 pk hp))
-    (pairwise_append_errs h.b_syn1 (fun q hq => (errs_not_syn c9 q hq).1))
-    (fun k hk => Or.inl hk)
-
-theorem HInv.openSock {a : String} {aep : Ep} {s : HS} (h : HInv a aep s) (hae : aep ≠ {}) (o : String) (hoa : o ≠ a)
-    (v : SockV) (hv : s.net.sv o = some v) (v4 : Bool) :
-    HInv a aep { s with net := (s.net.tcpOpen s.now o v4).1, bag := s.bag ++ fwdPkts (s.net.tcpOpen s.now o v4).2 } := by
-  obtain ⟨c1, c2, c3, c4, c5, c6, c7, _, c9⟩ := tcpOpen_sum s.net s.now o v4 v hv
-  generalize s.net.tcpOpen s.now o v4 = r at *
-  obtain ⟨n', e⟩ := r
-  simp only at c1 c2 c3 c4 c5 c6 c7 c9 ⊢
-  exact h.upd1 o hoa ⟨true, {}, some s.net.fwds.length, none, none, v.acc⟩ n' (s.bag ++ fwdPkts e) s.conLog
-    c1 (by rw [c2]; omega) c3 c6 c5
-    (fun e he => by
-      rw [c4] at he; split at he
-      · exact Or.inl he
-      · exact Or.inl (mem_simUnbind he))
-    (fun hl => by
-      rw [c4]; split
-      · exact hl
-      · exact lookup_simUnbind _ _ _ _ _ hoa hl)
-    (fun g => by
-      rw [c7 g]; simp only [hv, Option.bind_some, Option.some.injEq]
-      by_cases hg : g = s.net.fwds.length
-      · subst hg; simp
-      · have : ¬ (s.net.fwds.length = g) := fun hh => hg hh.symm
-        simp [hg, this])
-    (h.o_acc o v hoa hv) (fun _ => rfl) (fun _ _ _ _ => fun hh => hae hh.symm)
-    (fun c hc => by cases hc) (Or.inr (Or.inr ⟨rfl, by rw [c2]; omega⟩))
-    (fun hh _ => by
-      simp only [hv, Option.bind_some] at hh
-      have := (h.s_fwd o v _ hv hh.symm).1; omega)
-    (fun _ => rfl)
-    (fun pk hpk => by
-      rcases List.mem_append.mp hpk with hp | hp
-      · exact Or.inl hp
-      · exact Or.inr (errs_not_syn c9 pk hp))
-    (pairwise_append_errs h.b_syn1 (fun q hq => (errs_not_syn c9 q hq).1))
-    (fun k hk => Or.inl hk)
 
 /-! ### accept -/
 
@@ -490,32 +873,44 @@ theorem accAsyncAccept_eq (n : NetSt) (now : Int) (a : String) (op : AcceptOp) (
   simp only at h1 ⊢
   simp only [h1, hab]
 
-theorem HFull.accept {a : String} {aep : Ep} {s : HS} (h : HFull a aep s) (hae : aep ≠ {}) (op : AcceptOp) (tp : TParams)
-    (hok : s.ok a (.accept op)) : HFull a aep (s.step a tp (.accept op)) := by
-  obtain ⟨va, ac, hva, hac, _⟩ := h.inv.a_ex
+theorem HFull.accept {s : HS} (h : HFull s) (a : String) (op : AcceptOp) (tp : TParams)
+    (hok : s.ok (.accept a op)) : HFull (s.step tp (.accept a op)) := by
+  have hacc : s.net.isAcc a := by cases op <;> exact hok.1
+  obtain ⟨va, ac, hva, hac⟩ := isAcc_view hacc
   -- stage 0: the socket accepted into
-  have h0 : HInv a aep { s with net := (acceptPre s.net s.now a op).1, bag := s.bag ++ fwdPkts (acceptPre s.net s.now a op).2 }
-      ∧ (acceptPre s.net s.now a op).1.sv a = s.net.sv a
-      ∧ ((acceptPre s.net s.now a op).1.sv op.peer).isSome ∧ op.peer ≠ a
+  have h0 : HInv { s with net := (acceptPre s.net s.now a op).1, bag := s.bag ++ fwdPkts (acceptPre s.net s.now a op).2 }
+      ∧ (∀ a1 va1 ac1, (acceptPre s.net s.now a op).1.sv a1 = some va1 → va1.acc = some ac1 → s.net.sv a1 = some va1)
+      ∧ (acceptPre s.net s.now a op).1.sv a = some va
+      ∧ (∃ vp, (acceptPre s.net s.now a op).1.sv op.peer = some vp ∧ vp.acc = none)
       ∧ okPosts (acceptPre s.net s.now a op).2 = [] := by
     cases op with
     | into hh peer w =>
-      obtain ⟨hpa, hpe⟩ := hok
-      obtain ⟨p, hp⟩ := Option.isSome_iff_exists.mp hpe
+      obtain ⟨p, hp, hpacc⟩ := hok.2
       simp only [acceptPre, hp, AcceptOp.peer]
+      have hv : s.net.sv peer = some p.hview := by simp [NetSt.sv, hp]
       cases hpo : p.isOpen with
       | false =>
         simp only [Bool.false_eq_true, if_false, fwdPkts_nil, List.append_nil, okPosts_nil]
-        refine ⟨h.inv, ?_, ?_, hpa, ?_⟩ <;> first | rfl | trivial | simp [NetSt.sv, hp]
+        exact ⟨h.inv, fun _ _ _ h1 _ => h1, hva, ⟨p.hview, hv, hpacc⟩, trivial⟩
       | true =>
         simp only [if_true]
-        have hv : s.net.sv peer = some p.hview := by simp [NetSt.sv, hp]
-        refine ⟨h.inv.closeSock hae peer hpa p.hview hv, ?_, ?_, hpa, ?_⟩
-        · rw [(tcpClose_sum s.net s.now peer p.hview hv).2.2.2.2.1 a, if_neg (Ne.symm hpa)]
-        · rw [(tcpClose_sum s.net s.now peer p.hview hv).2.2.2.2.1 peer, if_pos rfl]; rfl
-        · exact (tcpClose_sum s.net s.now peer p.hview hv).2.2.2.2.2.2.2.1
+        have hc := h.inv.closeSock peer p.hview hv hpacc [] (Or.inl rfl)
+        simp only [List.append_nil] at hc
+        obtain ⟨_, _, _, _, c5, _, _, c8, _⟩ := tcpClose_sum s.net s.now peer p.hview hv
+        have hpa : a ≠ peer := by
+          intro hh'; rw [hh', hv] at hva; cases hva
+          have hx : p.hview.acc = none := hpacc
+          rw [hac] at hx; cases hx
+        refine ⟨hc, ?_, by rw [c5 a, if_neg hpa]; exact hva, ⟨_, by rw [c5 peer, if_pos rfl], hpacc⟩, c8⟩
+        intro a1 va1 ac1 hva1 hac1
+        rw [c5 a1] at hva1
+        split at hva1
+        · cases hva1
+          have hx : p.hview.acc = none := hpacc
+          simp only at hac1; rw [hx] at hac1; cases hac1
+        · exact hva1
     | fresh hh nn =>
-      have hnn : s.net.tcp? nn = none := hok
+      have hnn : s.net.tcp? nn = none := hok.2
       obtain ⟨s0, hs0, _⟩ := sv_some hva
       have hna : nn ≠ a := by intro he; rw [he, hs0] at hnn; cases hnn
       simp only [acceptPre, hs0, AcceptOp.peer, fwdPkts_nil, List.append_nil, okPosts_nil]
@@ -523,22 +918,42 @@ theorem HFull.accept {a : String} {aep : Ep} {s : HS} (h : HFull a aep s) (hae :
       have hsv : ∀ o', (s.net.setTcp nn { node := s0.node }).sv o'
           = if o' = nn then some ⟨false, {}, none, none, none, none⟩ else s.net.sv o' := by
         intro o'; rw [sv_setTcp]; split <;> rfl
-      have := h.inv.upd1 nn hna ⟨false, {}, none, none, none, none⟩ (s.net.setTcp nn { node := s0.node }) s.bag s.conLog
-        rfl (Nat.le_refl _) rfl (fun _ => rfl) hsv (fun e he => Or.inl he) (fun hl => hl)
-        (fun g => by simp [hsvn]) rfl (fun _ => rfl) (fun _ _ _ _ => fun hh => hae hh.symm)
+      have := h.inv.upd1 nn ⟨false, {}, none, none, none, none⟩ (s.net.setTcp nn { node := s0.node }) s.bag []
+        rfl (Nat.le_refl _) rfl (fun _ => rfl) hsv (fun e he => Or.inl he)
+        (fun _ _ _ _ hac' => by cases hac') (fun _ _ _ hl => hl) h.inv.np_pos h.inv.reg_nodef
+        (fun g => by simp [hsvn]) (by simp [hsvn]) (fun _ => rfl) (fun _ => Or.inl rfl)
         (fun c hc => by cases hc) (Or.inr (Or.inl rfl)) (fun _ hh => by cases hh) (fun hh => by cases hh)
-        (fun pk hpk => Or.inl hpk) h.inv.b_syn1 (fun k hk => Or.inl hk)
-      refine ⟨this, ?_, ?_, hna, trivial⟩
-      · rw [hsv, if_neg (Ne.symm hna)]
-      · rw [hsv, if_pos rfl]; rfl
-  obtain ⟨h0, hsa, hpe, hpa, hok0⟩ := h0
-  obtain ⟨s1, hs1, hv1⟩ := sv_some (hsa.trans hva)
+        (fun _ hac' => by cases hac') (fun _ hac' => by cases hac') (fun _ hac' => by cases hac')
+        (fun _ hac' => by cases hac') (fun v0 hv0 => by rw [hsvn] at hv0; cases hv0)
+        (fun pk hpk => Or.inl hpk) h.inv.b_syn1 (Or.inl rfl)
+      simp only [List.append_nil] at this
+      refine ⟨this, ?_, by rw [hsv, if_neg (Ne.symm hna)]; exact hva, ⟨_, by rw [hsv, if_pos rfl], rfl⟩, trivial⟩
+      intro a1 va1 ac1 hva1 hac1
+      rw [hsv a1] at hva1
+      split at hva1
+      · cases hva1; cases hac1
+      · exact hva1
+  obtain ⟨h0, hsvacc, hva0, ⟨vp, hvp, hvpa⟩, hok0⟩ := h0
+  obtain ⟨s1, hs1, hv1⟩ := sv_some hva0
   have hs1acc : s1.acc = some ac := by rw [← hac, ← hv1]; rfl
+  have cnp : (acceptPre s.net s.now a op).1.reg.nextPort = s.net.reg.nextPort := by
+    unfold acceptPre
+    cases op with
+    | into hh peer w =>
+      simp only
+      cases s.net.tcp? peer with
+      | none => rfl
+      | some p => simp only; split
+                  · exact tcpClose_np _ _ _
+                  · rfl
+    | fresh hh nn =>
+      simp only
+      cases s.net.tcp? a <;> rfl
   simp only [HS.step]
   rw [accAsyncAccept_eq s.net s.now a op s1 ac hs1 hs1acc]
   generalize acceptPre s.net s.now a op = r0 at *
   obtain ⟨n0, e0⟩ := r0
-  simp only at h0 hsa hpe hok0 hs1 ⊢
+  simp only at h0 hsvacc hva0 hvp hok0 hs1 cnp ⊢
   obtain ⟨b1, b2, b3⟩ := abortAccept_sum s1
   -- stage 1: the accept is stored
   have hsv : ∀ o, (n0.setTcp a { s1.abortAccept.1 with acc := some { ac with acceptOp := some op } }).sv o
@@ -549,27 +964,43 @@ theorem HFull.accept {a : String} {aep : Ep} {s : HS} (h : HFull a aep s) (hae :
       simp only [SockV.mk.injEq] at this
       simp [this.1, this.2.1, this.2.2.1, this.2.2.2.1, this.2.2.2.2.1]
     · rfl
-  have hva0 : n0.sv a = some va := hsa.trans hva
-  have h1 := h0.updA va ac { ac with acceptOp := some op } hva0 hac
-    (n0.setTcp a { s1.abortAccept.1 with acc := some { ac with acceptOp := some op } }) (s.bag ++ fwdPkts e0) s.synLog (s.accCalls + 1)
-    rfl rfl rfl (fun _ => rfl) hsv rfl (fun _ => rfl)
-    (fun hc => (h0.a_closed va ac hva0 hac hc).1)
-    (h0.fifo va ac hva0 hac)
+  have h1 := h0.updA a va ac { ac with acceptOp := some op } hva0 hac
+    (n0.setTcp a { s1.abortAccept.1 with acc := some { ac with acceptOp := some op } }) (s.bag ++ fwdPkts e0) s.synLog
+    (fun x => if x = a then s.accCalls a + 1 else s.accCalls x)
+    rfl rfl rfl (fun _ => rfl) hsv rfl (by rw [setTcp_reg, cnp]; exact h.inv.np_pos) (fun _ => rfl)
+    (fun hc => (h0.a_closed a va ac hva0 hac hc).1)
+    (fun hq => h0.a_lis a va ac hva0 hac hq)
+    (fun f hf => h0.fifo a va ac f hva0 hac hf) (fun _ _ => rfl)
     (fun op' hop' => by
       simp only [Option.some.injEq] at hop'; subst hop'
-      exact ⟨hpa, hpe, by omega, fun e he => by have := h0.ser_lt e he; simp only at this; omega⟩)
-    (by simp) h0.syn_lt h0.syn_nd (fun _ hp => Or.inl hp) h0.b_syn1
+      refine ⟨⟨vp, hvp, hvpa⟩, by simp, fun e he hea => ?_⟩
+      have := h0.ser_lt e he; simp only at this; rw [hea] at this
+      simp only [if_true]; omega)
+    (fun x => by simp only; split
+                 · rename_i hx; rw [hx]; omega
+                 · exact Nat.le_refl _)
+    (fun x hx => by simp only; rw [if_neg hx])
+    h0.syn_lt h0.syn_nd h0.syn_ep (fun _ hp => Or.inl hp) h0.b_syn1
     (fun pk hpk hty c hc => by
       obtain ⟨c', _, q1, _, q3, _⟩ := h0.b_syn pk hpk hty
       rw [hc] at q1; cases q1; exact q3)
   -- stage 2: `check_accept_queue`
-  have h2 := h1.check
+  have hacc1 : (n0.setTcp a { s1.abortAccept.1 with acc := some { ac with acceptOp := some op } }).isAcc a :=
+    ⟨_, tcp?_setTcp_same _ _ _, rfl⟩
+  have h2 := h1.check a hacc1
+    (fun a1 va1 ac1 hne hva1 hac1 hop1 hpe1 => by
+      simp only at hva1; rw [hsv, if_neg hne] at hva1
+      exact h.work a1 va1 ac1 (hsvacc a1 va1 ac1 hva1 hac1) hac1 hop1 hpe1)
   simp only at h2
   have e1 : (n0.setTcp a { s1.abortAccept.1 with acc := some { ac with acceptOp := some op } }).pendingAccept a = some op := by
-    rw [pendingAccept_of_sv (by rw [hsv, if_pos rfl]) rfl]
-  rw [e1] at h2
+    rw [pendingAccept_of_sv (va := { va with acc := some { ac with acceptOp := some op } }) (by rw [hsv, if_pos rfl]) rfl]
+  have e2 : (n0.setTcp a { s1.abortAccept.1 with acc := some { ac with acceptOp := some op } }).epochOf a = s.net.epochOf a := by
+    rw [epochOf_sv, epochOf_sv, hsv, if_pos rfl, hva]; rfl
+  have e3 : (n0.setTcp a { s1.abortAccept.1 with acc := some { ac with acceptOp := some op } }).boundOf a = s.net.boundOf a := by
+    rw [boundOf_sv, boundOf_sv, hsv, if_pos rfl, hva]; rfl
+  rw [e1, e2, e3] at h2
   simp only [fwdPkts_append, b3, List.append_nil, accDones, okPosts_append, hok0, b2, List.nil_append,
-    Nat.add_sub_cancel] at h2 ⊢
+    if_true, Nat.add_sub_cancel] at h2 ⊢
   rw [← List.append_assoc]
   exact h2
 
@@ -582,63 +1013,19 @@ theorem dials_of_errs (c : String) (target : Ep) (n' : NetSt) (e : List NEff) (h
   intro q hq
   rw [h q hq]; rfl
 
-theorem lookup_append_of_some {α β : Type} [BEq α] (l : List (α × β)) (k : α) (x : α × β) (v : β)
-    (h : l.lookup k = some v) : (l ++ [x]).lookup k = some v := by
-  induction l with
-  | nil => simp [List.lookup] at h
-  | cons y ys ih =>
-    obtain ⟨k₀, v₀⟩ := y
-    simp only [List.cons_append, List.lookup_cons] at h ⊢
-    cases hk : (k == k₀)
-    · simp only [hk] at h; exact ih h
-    · simp only [hk] at h; exact h
-
-theorem mem_of_lookup {α β : Type} [BEq α] [LawfulBEq α] (l : List (α × β)) (k : α) (v : β)
-    (h : l.lookup k = some v) : (k, v) ∈ l := by
-  induction l with
-  | nil => simp [List.lookup] at h
-  | cons y ys ih =>
-    obtain ⟨k₀, v₀⟩ := y
-    simp only [List.lookup_cons] at h
-    cases hk : (k == k₀)
-    · simp only [hk] at h; exact List.mem_cons_of_mem _ (ih h)
-    · simp only [hk] at h; cases h
-      have := eq_of_beq hk; subst this; exact List.mem_cons_self
-
-/-- an identity update of the network state (fields the handshake does not look at) -/
-theorem HInv.sameView {a : String} {aep : Ep} {s : HS} (h : HInv a aep s) (o : String) (hoa : o ≠ a) (v : SockV)
-    (hv : s.net.sv o = some v) (n' : NetSt) (bag' : List Pkt)
-    (hcfg : n'.cfg = s.net.cfg) (hfw : n'.fwds = s.net.fwds) (hch : n'.chans = s.net.chans)
-    (hreg : n'.reg.tcp = s.net.reg.tcp) (hsv : ∀ o', n'.sv o' = s.net.sv o')
-    (hbag : ∀ pk ∈ bag', pk ∈ s.bag ∨ (pk.ty ≠ .syn ∧ pk.ty ≠ .synack))
-    (hbag1 : bag'.Pairwise (fun (p q : Pkt) => p.ty = PType.syn → q.ty = PType.syn → p.chan ≠ q.chan)) :
-    HInv a aep { s with net := n', bag := bag' } :=
-  h.upd1 o hoa v n' bag' s.conLog hcfg (by rw [hfw]; exact Nat.le_refl _) (by rw [hch])
-    (fun c => by simp [NetSt.cv, NetSt.chan?, hch])
-    (fun o' => by rw [hsv]; split <;> simp_all)
-    (fun e he => by rw [hreg] at he; exact Or.inl he) (fun hl => by rw [hreg]; exact hl)
-    (fun g => by
-      simp only [hv, Option.bind_some, NetSt.fwdTarget, hfw]
-      split
-      · rename_i hg; exact (h.s_fwd o v g hv hg).2
-      · rfl)
-    (h.o_acc o v hoa hv) (fun hc => h.idle o v hoa hv hc)
-    (fun va hva hop hc => h.idle_b o v va hoa hv hva hop hc)
-    (fun c0 hc0 => ⟨v, hv, hc0, rfl, rfl, Or.inl rfl⟩)
-    (Or.inl (by simp [hv])) (fun _ _ => by simp [hv]) (fun hop => h.o_fwd o v hv hop)
-    hbag hbag1 (fun k hk => Or.inl hk)
-
-theorem HFull.connect {a : String} {aep : Ep} {s : HS} (h : HFull a aep s) (hae : aep ≠ {}) (c : String) (target : Ep)
-    (hh : Nat) (tp : TParams) (hok : s.ok a (.connect c target hh)) :
-    HFull a aep (s.step a tp (.connect c target hh)) := by
-  obtain ⟨hca, sk, hsk, hskc⟩ := hok
+theorem HFull.connect {s : HS} (h : HFull s) (c : String) (target : Ep)
+    (hh : Nat) (tp : TParams) (hok : s.ok (.connect c target hh)) :
+    HFull (s.step tp (.connect c target hh)) := by
+  obtain ⟨sk, hsk, hskacc, hskc⟩ := hok
   have hvk : s.net.sv c = some sk.hview := by simp [NetSt.sv, hsk]
+  have hvkacc : sk.hview.acc = none := hskacc
   simp only [HS.step]
   rw [tcpConnect_eq s.net s.now c target hh sk hsk]
   -- stage 1: open if closed
   have S1 : ∀ r1, r1 = (if !sk.isOpen then s.net.tcpOpen s.now c target.isV4 else (s.net, [])) →
-      HInv a aep { s with net := r1.1, bag := s.bag ++ fwdPkts r1.2 } ∧ r1.1.sv a = s.net.sv a
-      ∧ (∃ v1, r1.1.sv c = some v1 ∧ v1.chan = none ∧ v1.isOpen = true)
+      HInv { s with net := r1.1, bag := s.bag ++ fwdPkts r1.2 }
+      ∧ (∀ o', o' ≠ c → r1.1.sv o' = s.net.sv o')
+      ∧ (∃ v1, r1.1.sv c = some v1 ∧ v1.chan = none ∧ v1.isOpen = true ∧ v1.acc = none)
       ∧ (∀ q ∈ fwdPkts r1.2, q.ty = .err) := by
     intro r1 hr1
     cases hopn : sk.isOpen with
@@ -646,71 +1033,96 @@ theorem HFull.connect {a : String} {aep : Ep} {s : HS} (h : HFull a aep s) (hae 
       simp only [hopn, Bool.not_true, Bool.false_eq_true, if_false] at hr1
       subst hr1
       simp only [fwdPkts_nil, List.append_nil]
-      refine ⟨h.inv, ?_, ⟨sk.hview, hvk, hskc, hopn⟩, by simp⟩
-      first | rfl | trivial
+      exact ⟨h.inv, fun _ _ => trivial, ⟨sk.hview, hvk, hskc, hopn, hskacc⟩, by simp⟩
     | false =>
       simp only [hopn, Bool.not_false, if_true] at hr1
       subst hr1
       obtain ⟨_, _, _, _, c5, _, _, _, c9⟩ := tcpOpen_sum s.net s.now c target.isV4 sk.hview hvk
-      refine ⟨h.inv.openSock hae c hca sk.hview hvk target.isV4, ?_, ⟨_, by rw [c5 c, if_pos rfl], rfl, rfl⟩, c9⟩
-      rw [c5 a, if_neg (Ne.symm hca)]
-  obtain ⟨h1, hsa1, ⟨v1, hv1, hv1c, hv1o⟩, herr⟩ := S1 _ rfl
+      have ho := h.inv.openSock c sk.hview hvk (fun ac hac => by rw [hvkacc] at hac; cases hac) target.isV4 [] (Or.inl rfl)
+      simp only [List.append_nil] at ho
+      refine ⟨ho,
+        fun o' ho' => by rw [c5 o', if_neg ho'], ⟨_, by rw [c5 c, if_pos rfl], rfl, rfl, hskacc⟩, c9⟩
+  obtain ⟨h1, hso1, ⟨v1, hv1, hv1c, hv1o, hv1a⟩, herr⟩ := S1 _ rfl
   generalize (if !sk.isOpen then s.net.tcpOpen s.now c target.isV4 else (s.net, [])) = r1 at *
   obtain ⟨n1, e0⟩ := r1
-  simp only at h1 hsa1 hv1 herr ⊢
+  simp only at h1 hso1 hv1 herr ⊢
   obtain ⟨s1, hs1, hs1v⟩ := sv_some hv1
   simp only [hs1]
   -- stage 2: implicit bind
   obtain ⟨b1, b2, b3, b4⟩ := connBind_sum n1 c s1 target
+  obtain ⟨bnp, bnd⟩ := connBind_np n1 c s1 target h1.np_pos
   generalize connBind n1 c s1 target = r2 at *
   obtain ⟨n2, ecb⟩ := r2
-  simp only at b1 b2 b3 b4 ⊢
+  simp only at b1 b2 b3 b4 bnp bnd ⊢
+  have hnd2 : ∀ e ∈ n2.reg.tcp, e.1.isDefault = false := by
+    intro e he
+    rcases bnd e he with h' | h'
+    · exact h1.reg_nodef e h'
+    · exact h'
   have hpw := pairwise_append_errs h.inv.b_syn1 (fun q hq => (errs_not_syn herr q hq).1)
-  have S2 : HInv a aep { s with net := n2, bag := s.bag ++ fwdPkts e0 } ∧ n2.sv a = s.net.sv a
-      ∧ (∃ v2, n2.sv c = some v2 ∧ v2.chan = none ∧ v2.isOpen = true) := by
+  have S2 : HInv { s with net := n2, bag := s.bag ++ fwdPkts e0 } ∧ (∀ o', o' ≠ c → n2.sv o' = s.net.sv o')
+      ∧ (∃ v2, n2.sv c = some v2 ∧ v2.chan = none ∧ v2.isOpen = true ∧ v2.acc = none) := by
     rcases b4 with ⟨r1, r2⟩ | ⟨_, ep2, r1, r2, r3⟩
     · have hsv : ∀ o', n2.sv o' = n1.sv o' := fun o' => by simp [NetSt.sv, r2 o']
-      refine ⟨?_, by rw [hsv, hsa1], ⟨v1, by rw [hsv, hv1], hv1c, hv1o⟩⟩
-      exact h1.sameView c hca v1 hv1 n2 (s.bag ++ fwdPkts e0) b1 b2 b3 r1 hsv (fun _ hp => Or.inl hp) h1.b_syn1
+      refine ⟨?_, fun o' ho' => by rw [hsv, hso1 o' ho'], ⟨v1, by rw [hsv, hv1], hv1c, hv1o, hv1a⟩⟩
+      exact h1.sameView c v1 hv1 n2 (s.bag ++ fwdPkts e0) b1 b2 b3 r1 bnp hsv (fun _ hp => Or.inl hp) h1.b_syn1
     · have hsv : ∀ o', n2.sv o' = if o' = c then some { v1 with bound := ep2 } else n1.sv o' := by
         intro o'; simp only [NetSt.sv, r3 o']; split
         · rw [← hs1v]; rfl
         · rfl
-      refine ⟨?_, by rw [hsv, if_neg (Ne.symm hca), hsa1], ⟨{ v1 with bound := ep2 }, by rw [hsv, if_pos rfl], hv1c, hv1o⟩⟩
-      exact h1.upd1 c hca { v1 with bound := ep2 } n2 (s.bag ++ fwdPkts e0) s.conLog b1 (by rw [b2]; exact Nat.le_refl _)
+      refine ⟨?_, fun o' ho' => by rw [hsv, if_neg ho', hso1 o' ho'],
+        ⟨{ v1 with bound := ep2 }, by rw [hsv, if_pos rfl], hv1c, hv1o, hv1a⟩⟩
+      have := h1.upd1 c { v1 with bound := ep2 } n2 (s.bag ++ fwdPkts e0) [] b1 (by rw [b2]; exact Nat.le_refl _)
         (by rw [b3]) (fun d => by simp [NetSt.cv, NetSt.chan?, b3]) hsv
         (fun e he => by
           rw [r2] at he
           rcases List.mem_append.mp he with he | he
           · exact Or.inl he
           · rw [List.mem_singleton] at he; subst he; exact Or.inr rfl)
-        (fun hl => by rw [r2]; exact lookup_append_of_some _ _ _ _ hl)
+        (fun e he ho ac hac => by simp only at hac; rw [hv1a] at hac; cases hac)
+        (fun k o' _ hl => by rw [r2]; exact lookup_append_of_some _ _ _ _ hl)
+        bnp hnd2
         (fun g => by
           simp only [hv1, Option.bind_some, NetSt.fwdTarget, b2]
           split
           · rename_i hg; exact (h1.s_fwd c v1 g hv1 hg).2
           · rfl)
-        (h1.o_acc c v1 hca hv1) (fun _ => h1.idle c v1 hca hv1 hv1c)
-        (fun va hva hop _ => by
-          intro hb
-          have := (h1.a_open va hva hop).2.2.2
-          simp only at hb; rw [← hb, r1] at this; cases this)
+        (by simp [hv1, hv1a]) (fun _ => h1.idle c v1 hv1 hv1c)
+        (fun _ => Or.inr (by rw [r2]; exact lookup_append_none _ _ _ r1))
         (fun c0 hc0 => by simp only at hc0; rw [hv1c] at hc0; cases hc0)
         (Or.inl (by simp [hv1])) (fun _ _ => by simp [hv1]) (fun hop => h1.o_fwd c v1 hv1 hop)
-        (fun _ hp => Or.inl hp) h1.b_syn1 (fun k hk => Or.inl hk)
-  obtain ⟨h2, hsa2, ⟨v2, hv2, hv2c, hv2o⟩⟩ := S2
-  have hwork : ∀ n' : NetSt, n'.sv a = s.net.sv a → ∀ (s' : HS), s'.net = n' → HInv.work a s' := by
-    intro n' hn' s' hs' va ac hva hac hop hpe
-    rw [hs', hn'] at hva; exact h.work va ac hva hac hop hpe
+        (fun ac hac => by simp only at hac; rw [hv1a] at hac; cases hac)
+        (fun ac hac => by simp only at hac; rw [hv1a] at hac; cases hac)
+        (fun ac hac => by simp only at hac; rw [hv1a] at hac; cases hac)
+        (fun ac hac => by simp only at hac; rw [hv1a] at hac; cases hac)
+        (fun v0 hv0 _ => by
+          rw [hv1] at hv0; have e := Option.some.inj hv0
+          right; intro d hd hdf
+          simp only at hdf
+          have := (h1.d_acc d hd c v1 hv1 hdf).2.2
+          rw [hv1a] at this; cases this)
+        (fun _ hp => Or.inl hp) h1.b_syn1 (Or.inl rfl)
+      simp only [List.append_nil] at this
+      exact this
+  obtain ⟨h2, hso2, ⟨v2, hv2, hv2c, hv2o, hv2a⟩⟩ := S2
+  have hacc2 : ∀ a1 va1 ac1, n2.sv a1 = some va1 → va1.acc = some ac1 → s.net.sv a1 = some va1 := by
+    intro a1 va1 ac1 hva1 hac1
+    by_cases ho : a1 = c
+    · subst ho; rw [hv2] at hva1; cases hva1; rw [hv2a] at hac1; cases hac1
+    · rw [hso2 a1 ho] at hva1; exact hva1
+  have hwork2 : ∀ n' : NetSt, (∀ o', n'.sv o' = n2.sv o') → ∀ (s' : HS), s'.net = n' → HInv.work s' := by
+    intro n' hn' s' hs' a1 va1 ac1 hva1 hac1 hop1 hpe1
+    rw [hs', hn'] at hva1
+    exact h.work a1 va1 ac1 (hacc2 a1 va1 ac1 hva1 hac1) hac1 hop1 hpe1
   -- the cases that post an error at once
   have Serr : ∀ ec : Ec, ec ≠ .ok →
-      HFull a aep { s with net := n2, bag := s.bag ++ fwdPkts (e0 ++ [NEff.post { h := hh, ec := ec }]),
-                           dialLog := s.dialLog ++ dials c target n2 (e0 ++ [NEff.post { h := hh, ec := ec }]) } := by
+      HFull { s with net := n2, bag := s.bag ++ fwdPkts (e0 ++ [NEff.post { h := hh, ec := ec }]),
+                     dialLog := s.dialLog ++ dials c target n2 (e0 ++ [NEff.post { h := hh, ec := ec }]) } := by
     intro ec _
     have hf : fwdPkts (e0 ++ [NEff.post { h := hh, ec := ec }]) = fwdPkts e0 := by
       rw [fwdPkts_append]; simp [fwdPkts]
     rw [dials_of_errs c target n2 _ (by rw [hf]; exact herr), hf, List.append_nil]
-    exact ⟨h2, hwork n2 hsa2 _ rfl⟩
+    exact ⟨h2, hwork2 n2 (fun _ => rfl) _ rfl⟩
   split
   · rename_i hne
     exact Serr ecb (by simpa using hne)
@@ -733,30 +1145,26 @@ theorem HFull.connect {a : String} {aep : Ep} {s : HS} (h : HFull a aep s) (hae 
           have : s2.chan = none := by rw [← hv2c, ← hs2v]; rfl
           simp [TcpSock.hview, this]
         · rfl
-      refine ⟨?_, hwork _ (by rw [hsv, hsa2]) _ rfl⟩
-      exact h2.sameView c hca v2 hv2 _ (s.bag ++ fwdPkts e0) rfl rfl rfl rfl hsv (fun _ hp => Or.inl hp) h2.b_syn1
-    · -- the acceptor is listening: a channel and a SYN
+      refine ⟨?_, hwork2 _ hsv _ rfl⟩
+      exact h2.sameView c v2 hv2 _ (s.bag ++ fwdPkts e0) rfl rfl rfl rfl h2.np_pos hsv (fun _ hp => Or.inl hp) h2.b_syn1
+    · -- an acceptor is listening there: a channel and a SYN
       obtain ⟨rname, rs, l1, l2, l3⟩ := hl
-      have hra : rname = a := by
-        by_cases hra : rname = a
-        · exact hra
-        · have := h2.o_acc rname rs.hview hra (by simp [NetSt.sv, l2])
-          rw [isListening_view] at l3
-          simp [SockV.listening, this] at l3
-      subst hra
-      have htg : target = aep := h2.reg_a (target, rname) (mem_of_lookup _ _ _ l1) rfl
-      subst htg
       have hvra : n2.sv rname = some rs.hview := by simp [NetSt.sv, l2]
       obtain ⟨ac, hac⟩ : ∃ ac, rs.hview.acc = some ac := by
-        obtain ⟨va', ac', q1, q2, _⟩ := h2.a_ex
-        rw [hvra] at q1; cases q1; exact ⟨ac', q2⟩
+        rw [isListening_view] at l3
+        cases hra : rs.hview.acc with
+        | none => simp [SockV.listening, hra] at l3
+        | some ac => exact ⟨ac, rfl⟩
       have hql : 0 < ac.queueLimit := by
         rw [isListening_view] at l3; simpa [SockV.listening, hac] using l3
       have hopen : rs.hview.isOpen = true := by
         cases hvo : rs.hview.isOpen with
         | true => rfl
-        | false => have := (h2.a_closed _ ac hvra hac hvo).1; omega
-      obtain ⟨hvb, hvf, _, _⟩ := h2.a_open _ hvra hopen
+        | false => have := (h2.a_closed rname _ ac hvra hac hvo).1; omega
+      obtain ⟨f, hvf⟩ := Option.isSome_iff_exists.mp (h2.o_fwd rname _ hvra hopen)
+      have hvb : rs.hview.bound = target := h2.reg_own (target, rname) (mem_of_lookup _ _ _ l1) _ ac hvra hac
+      have hrc : rname ≠ c := by
+        intro hrc; rw [hrc, hv2] at hvra; cases hvra; rw [hv2a] at hac; cases hac
       obtain ⟨c1, c2, c3, c4, c5, c6, c7, syn, c8, c9, c10, c11, _⟩ :=
         internalConnect_ok n2 c target v2 rname rs.hview hv2 l1 hvra (by rw [← isListening_view]; exact l3)
       generalize connDial n2 c target hh e0 = r at *
@@ -769,126 +1177,147 @@ theorem HFull.connect {a : String} {aep : Ep} {s : HS} (h : HFull a aep s) (hae 
         rw [fwdPkts_append]; rfl
       have hb2 : s2.bound = v2.bound := congrArg SockV.bound hs2v
       have hf2 : s2.fwd = v2.fwd := congrArg SockV.fwd hs2v
+      have hrs : (n3.setTcp c { s2 with mss := n2.cfg.pathMtu s2.bound.addr target.addr, cwnd := n2.cfg.pathMtu s2.bound.addr target.addr * 2, chan := some n2.chans.length, connectH := some hh }).tcp? rname = some rs := by
+        rw [tcp?_setTcp_other _ _ _ _ hrc, c5 rname]; exact l2
+      have hep : (n3.setTcp c { s2 with mss := n2.cfg.pathMtu s2.bound.addr target.addr, cwnd := n2.cfg.pathMtu s2.bound.addr target.addr * 2, chan := some n2.chans.length, connectH := some hh }).epochOf rname = f := by
+        unfold NetSt.epochOf; rw [hrs]
+        have : rs.fwd = some f := hvf
+        simp [this]
       have hd : dials c target (n3.setTcp c { s2 with mss := n2.cfg.pathMtu s2.bound.addr target.addr, cwnd := n2.cfg.pathMtu s2.bound.addr target.addr * 2, chan := some n2.chans.length, connectH := some hh })
-                  (e0 ++ [NEff.forward syn]) = [⟨n2.chans.length, c, target, v2.bound, v2.fwd⟩] := by
+                  (e0 ++ [NEff.forward syn]) = [⟨n2.chans.length, c, target, v2.bound, v2.fwd, rname, f⟩] := by
         unfold dials
         rw [hf, List.filterMap_append, List.filterMap_eq_nil_iff.mpr (fun q hq => by rw [herr q hq]; rfl)]
-        simp [c9, c10, hb2, hf2]
+        have hlk : (n3.setTcp c { s2 with mss := n2.cfg.pathMtu s2.bound.addr target.addr, cwnd := n2.cfg.pathMtu s2.bound.addr target.addr * 2, chan := some n2.chans.length, connectH := some hh }).reg.tcp.lookup target = some rname := by
+          rw [setTcp_reg, c3]; exact l1
+        simp only [List.filterMap_cons, List.filterMap_nil, c9, if_true, c10, Option.map_some, hlk, Option.getD_some, hep,
+          tcp?_setTcp_same, List.nil_append]
+        simp [hb2, hf2]
       rw [hd, hf, ← List.append_assoc]
       have hsv : ∀ o', (n3.setTcp c { s2 with mss := n2.cfg.pathMtu s2.bound.addr target.addr, cwnd := n2.cfg.pathMtu s2.bound.addr target.addr * 2, chan := some n2.chans.length, connectH := some hh }).sv o'
           = if o' = c then some { v2 with chan := some n2.chans.length, connectH := some hh } else n2.sv o' := by
         intro o'; rw [sv_setTcp]; split
         · rw [← hs2v]; rfl
         · simp [NetSt.sv, c5 o']
-      have := h2.dial c hca v2 rs.hview ac hv2 hv2c hv2o hvra hac hql hh
+      have := h2.dial c rname v2 rs.hview ac target f hv2 hv2a hv2c hv2o hvra hac hql hvf l1 hh
         (n3.setTcp c { s2 with mss := n2.cfg.pathMtu s2.bound.addr target.addr, cwnd := n2.cfg.pathMtu s2.bound.addr target.addr * 2, chan := some n2.chans.length, connectH := some hh })
-        syn c2 (by rw [setTcp_reg, c3]) (by rw [setTcp_fwds, c4]) (fun g => by simp [NetSt.fwdTarget, c4])
+        syn c2 (by rw [setTcp_reg, c3]) (by rw [setTcp_reg, c3]; exact h2.np_pos) (by rw [setTcp_fwds, c4])
+        (fun g => by simp [NetSt.fwdTarget, c4])
         (by rw [setTcp_chans]; exact c6) hsv
         (fun d => by rw [cv_setTcp, c7 d, hvb, hvf])
         ⟨c9, c10, by rw [c11, hvb, hvf]⟩
-      refine ⟨this, hwork _ ?_ _ rfl⟩
-      rw [hsv, if_neg (Ne.symm hca), hsa2]
+      refine ⟨this, ?_⟩
+      intro a1 va1 ac1 hva1 hac1 hop1 hpe1
+      simp only at hva1
+      rw [hsv] at hva1
+      split at hva1
+      · cases hva1; simp only at hac1; rw [hv2a] at hac1; cases hac1
+      · exact h.work a1 va1 ac1 (hacc2 a1 va1 ac1 hva1 hac1) hac1 hop1 hpe1
 
 /-! ### every label, every history -/
 
-theorem HFull.step {a : String} {aep : Ep} {s : HS} (h : HFull a aep s) (hae : aep ≠ {}) (tp : TParams) (l : HLbl)
-    (hok : s.ok a l) : HFull a aep (s.step a tp l) := by
+theorem HFull.step {s : HS} (h : HFull s) (tp : TParams) (l : HLbl) (hok : s.ok l) : HFull (s.step tp l) := by
   cases l with
   | tick t => exact h.tick t
-  | listen qs => exact h.listen qs
-  | connect c target hh => exact h.connect hae c target hh tp hok
-  | natRewrite i ext => exact h.natRw i ext tp
-  | deliverSyn i => exact h.deliverSyn i tp hok
-  | accept op => exact h.accept hae op tp hok
+  | openAcc a v4 => exact h.openAcc a v4 tp hok
+  | bind o ep => exact h.bind o ep hok
+  | openSock o v4 => exact h.openSockL o v4 tp hok
+  | listen a qs => exact h.listen a qs hok
+  | accept a op => exact h.accept a op tp hok
+  | cancelAcc a => exact h.cancelAcc a hok
+  | closeAcceptor a => exact h.closeAcceptor a hok
+  | deliverSyn i a => exact h.deliverSyn i a tp hok
+  | deliverErr i a => exact h.deliverErr i a tp hok
+  | connect c target hh => exact h.connect c target hh tp hok
+  | cancel o => exact h.cancel o tp hok
+  | close o => exact h.close o tp hok
   | deliverSynAck i c => exact h.deliverSynAck i c tp hok
-  | closeAcceptor => exact h.closeAcceptor
+  | natRewrite i ext => exact h.natRw i ext tp
 
-theorem HFull.run {a : String} {aep : Ep} (hae : aep ≠ {}) (tp : TParams) (ls : List HLbl) :
-    ∀ s : HS, HFull a aep s → HS.okRun a tp s ls → HFull a aep (HS.run a tp s ls) := by
+theorem HFull.run (tp : TParams) (ls : List HLbl) :
+    ∀ s : HS, HFull s → HS.okRun tp s ls → HFull (HS.run tp s ls) := by
   induction ls with
   | nil => intro s h _; exact h
   | cons l rest ih =>
     intro s h hok
-    exact ih _ (h.step hae tp l hok.1) hok.2
+    exact ih _ (h.step tp l hok.1) hok.2
 
 /-! ### the initial state -/
 
-theorem init_sv_a (cfg : NetCfg) (a anode : String) (aep : Ep) (clients : List (String × String)) :
-    (HS.init cfg a anode aep clients).net.sv a = some ⟨true, aep, some 0, none, none, some {}⟩ := by
-  simp [HS.init, NetSt.sv, NetSt.tcp?, List.lookup, TcpSock.hview]
-
-theorem init_sv_other (cfg : NetCfg) (a anode : String) (aep : Ep) (clients : List (String × String))
-    (o : String) (v : SockV) (hoa : o ≠ a) (hv : (HS.init cfg a anode aep clients).net.sv o = some v) :
-    v = ⟨false, {}, none, none, none, none⟩ := by
-  have hb : (o == a) = false := by simp [hoa]
-  simp only [HS.init, NetSt.sv, NetSt.tcp?, List.lookup_cons, hb] at hv
-  induction clients with
-  | nil => simp at hv
-  | cons x xs ih =>
-    simp only [List.filter_cons] at hv
-    split at hv
-    · simp only [List.map_cons, List.lookup_cons] at hv
+theorem init_sv (cfg : NetCfg) (accs clients : List (String × String)) (o : String) (v : SockV)
+    (hv : (HS.init cfg accs clients).net.sv o = some v) :
+    v = ⟨false, {}, none, none, none, none⟩ ∨ v = ⟨false, {}, none, none, none, some {}⟩ := by
+  simp only [HS.init, NetSt.sv, NetSt.tcp?] at hv
+  induction accs with
+  | nil =>
+    simp only [List.map_nil, List.nil_append] at hv
+    induction clients with
+    | nil => simp at hv
+    | cons x xs ih =>
+      simp only [List.map_cons, List.lookup_cons] at hv
       cases hk : (o == x.1)
       · simp only [hk] at hv; exact ih hv
-      · simp only [hk, Option.map_some, Option.some.injEq] at hv; rw [← hv]; rfl
-    · exact ih hv
+      · simp only [hk, Option.map_some, Option.some.injEq] at hv; left; rw [← hv]; rfl
+  | cons x xs ih =>
+    simp only [List.map_cons, List.cons_append, List.lookup_cons] at hv
+    cases hk : (o == x.1)
+    · simp only [hk] at hv; exact ih hv
+    · simp only [hk, Option.map_some, Option.some.injEq] at hv; right; rw [← hv]; rfl
 
-theorem HFull.init (cfg : NetCfg) (a anode : String) (aep : Ep) (clients : List (String × String)) (hae : aep ≠ {}) :
-    HFull a aep (HS.init cfg a anode aep clients) := by
-  have ha := init_sv_a cfg a anode aep clients
-  have ho := init_sv_other cfg a anode aep clients
-  have hcv : ∀ c, (HS.init cfg a anode aep clients).net.cv c = none := by intro c; simp [HS.init, NetSt.cv, NetSt.chan?]
-  have hft : ∀ f o, (HS.init cfg a anode aep clients).net.fwdTarget f = some o → f = 0 ∧ o = a := by
-    intro f o hfo
-    simp only [HS.init, NetSt.fwdTarget] at hfo
-    cases f with
-    | zero => simp at hfo; exact ⟨rfl, hfo.symm⟩
-    | succ k => simp at hfo
+theorem HFull.init (cfg : NetCfg) (accs clients : List (String × String)) : HFull (HS.init cfg accs clients) := by
+  have hsv := init_sv cfg accs clients
+  have hcv : ∀ c, (HS.init cfg accs clients).net.cv c = none := by intro c; simp [HS.init, NetSt.cv, NetSt.chan?]
+  have hft : ∀ f, (HS.init cfg accs clients).net.fwdTarget f = none := by
+    intro f; simp [HS.init, NetSt.fwdTarget]
+  have hfld : ∀ o v, (HS.init cfg accs clients).net.sv o = some v →
+      v.isOpen = false ∧ v.bound = {} ∧ v.fwd = none ∧ v.chan = none ∧ v.connectH = none
+      ∧ (∀ ac, v.acc = some ac → ac = {}) := by
+    intro o v hv
+    rcases hsv o v hv with h1 | h1 <;> subst h1
+    · exact ⟨rfl, rfl, rfl, rfl, rfl, fun _ hh => by cases hh⟩
+    · exact ⟨rfl, rfl, rfl, rfl, rfl, fun _ hh => by cases hh; rfl⟩
   refine ⟨?_, ?_⟩
   · constructor
-    · exact ⟨_, _, ha, rfl, rfl⟩
-    · intro va hva _; rw [ha] at hva; cases hva
-      exact ⟨rfl, rfl, by simp [HS.init, NetSt.fwdTarget], by simp [HS.init, List.lookup]⟩
-    · intro va ac hva _ hcl; rw [ha] at hva; cases hva; cases hcl
-    · intro e he hea; simp [HS.init] at he; rw [he]
-    · intro o v hne hv; rw [ho o v hne hv]
-    · simp [HS.init]
+    · intro a va ac hva _; exact (hfld a va hva).2.2.2.1
+    · intro a va ac hva hac _
+      obtain ⟨_, _, q3, _, _, q6⟩ := hfld a va hva
+      rw [q6 ac hac]; exact ⟨by decide, q3⟩
+    · intro a va ac hva hac hq
+      rw [(hfld a va hva).2.2.2.2.2 ac hac] at hq; exact absurd hq (by decide)
+    · intro e he; simp [HS.init] at he
+    · intro o v hv _; exact Or.inl (hfld o v hv).2.1
     · simp [HS.init]
     · intro c cv d hc; rw [hcv] at hc; cases hc
-    · intro c cv hc; rw [hcv] at hc; cases hc
+    · intro c cv d hc; rw [hcv] at hc; cases hc
     · intro c cv e hc; rw [hcv] at hc; cases hc
-    · intro o v hne hv _; rw [ho o v hne hv]
-    · intro o v va hne hv _ _ _; rw [ho o v hne hv]; exact fun hh => hae hh.symm
-    · intro o v c hne hv hch; rw [ho o v hne hv] at hch; cases hch
-    · intro o v f hv hf
-      by_cases hoa : o = a
-      · subst hoa; rw [ha] at hv; cases hv
-        simp only [Option.some.injEq] at hf; subst hf
-        exact ⟨by simp [HS.init], by simp [HS.init, NetSt.fwdTarget]⟩
-      · rw [ho o v hoa hv] at hf; cases hf
-    · intro f o hfo
-      obtain ⟨h1, h2⟩ := hft f o hfo
-      subst h1; subst h2; exact ⟨_, ha, rfl⟩
     · intro d hd; simp [HS.init] at hd
+    · intro o v hv _; exact (hfld o v hv).2.2.2.2.1
+    · intro o v c hv hch; rw [(hfld o v hv).2.2.2.1] at hch; cases hch
+    · intro o v f hv hf; rw [(hfld o v hv).2.2.1] at hf; cases hf
+    · intro f o hfo; rw [hft] at hfo; cases hfo
+    · intro d hd; simp [HS.init] at hd
+    · intro o v hv hop; rw [(hfld o v hv).1] at hop; cases hop
     · intro pk hpk; simp [HS.init] at hpk
     · simp [HS.init]
     · intro pk hpk; simp [HS.init] at hpk
-    · intro c hc; simp [HS.init] at hc
+    · intro x hx; simp [HS.init] at hx
     · simp [HS.init]
-    · intro va ac hva hac; rw [ha] at hva; cases hva; cases hac
-      exact ⟨[], by simp [HS.init], fun _ => rfl⟩
+    · intro x hx; simp [HS.init] at hx
+    · intro a va ac f hva _ hf; rw [(hfld a va hva).2.2.1] at hf; cases hf
+    · intro f; exact ⟨[], by simp [HS.init, synAtL, accAtL]⟩
     · intro e he; simp [HS.init] at he
-    · intro va ac op hva hac hop; rw [ha] at hva; cases hva; cases hac; cases hop
+    · intro a va ac op hva hac hop
+      rw [(hfld a va hva).2.2.2.2.2 ac hac] at hop; cases hop
     · intro e he; simp [HS.init] at he
     · simp [HS.init]
     · intro e he; simp [HS.init] at he
     · intro k hk; simp [HS.init] at hk
-    · intro o v hv hop
-      by_cases hoa : o = a
-      · subst hoa; rw [ha] at hv; cases hv; rfl
-      · rw [ho o v hoa hv] at hop; cases hop
+    · simp [HS.init]
+    · intro o v c hv hch; rw [(hfld o v hv).2.2.2.1] at hch; cases hch
     · intro x hx; simp [HS.init] at hx
-  · intro va ac hva hac _ hpe; rw [ha] at hva; cases hva; cases hac; cases hpe
+    · simp [HS.init]
+    · intro e he; simp [HS.init] at he
+    · simp [HS.init]
+  · intro a va ac hva _ hop; rw [(hfld a va hva).1] at hop; cases hop
 
 end Hs
 end SimVerif
